@@ -1,237 +1,30 @@
 (** Crash / failure recovery of `migrate apply` (C10 re-run clause, C10
     rev_sound, C13 fix-and-rerun): M-TX over the C09 resume invariant.
 
-    Setting: one directory [dir] (its files strictly sorted by version, no
-    checkpoint file, no txmode directive). A database state is described by
-    - [Bd d k]   : a file boundary -- the journal holds exactly the statements
-                   of the first [k] files, the table holds their complete
-                   revisions and nothing else;
-    - [DInv d D] : the general resume state -- the table satisfies the C09
-                   invariant and the journal is the plan up to the executed
-                   position with at most [D] repeated statements. *)
+    Setting: the migration directory is [dskip ++ dir]; its files are strictly
+    sorted by version; [dir] is the directory from its last checkpoint file on
+    (the files of [dskip] are never run). Every file may carry a txmode
+    directive; a command with global mode [g] is [valid] if no directive is
+    rejected ([mode_for g tf <> None]); each file then runs in its effective
+    mode [mode_for g tf].
+
+    [St c D k a has e]: the database [c] is in a resume state -- its revision
+    table satisfies the C09 invariant at (k, a, has); its journal is the plan up
+    to the executed position [pos k a + e] with at most [D] repeated statements
+    (repeats + the unclaimed statement [e] <= D).
+    [Bd c k] = [St c 0 k 0 false false]: a file boundary -- exactly the
+    statements of the first [k] files, their complete revisions, nothing else.
+    [LK t k]: every row has type "execute" and the rows of the first [k] files
+    are literally the completed revisions (no partial hashes, no error). *)
 From Coq Require Import List NArith Bool Arith Lia.
 From Atlas Require Import Base.Bytes Base.ListX Base.Stutter
   Exec.ExecModel Exec.ExecProofs Exec.StepProofs Exec.PendingModel Exec.PendingProofs
   Exec.RunModel Exec.TxModel Exec.TxProofs Exec.RunProofs.
 Import ListNotations.
 
-Section Crash.
-Variable hash : Type.
-Variable hash_eqb : hash -> hash -> bool.
-Variable HS : bytes -> hash.
-Hypothesis hash_eqb_spec : forall a b, hash_eqb a b = true <-> a = b.
-
-Variable dir : list tfile.
-Let all := map tf_file dir.
-Hypothesis Hsorted : sorted_files all.
-Hypothesis Hnock : forall f, In f all -> f_ckpt f = false.
-Hypothesis Hnodir : no_directive dir.
-
-Notation rev := (rev hash).
-Notation event := (event hash).
-Notation db := (db hash).
-Notation execute := (execute hash hash_eqb HS).
-Notation exec_files := (exec_files hash hash_eqb HS).
-Notation execute_n := (execute_n hash hash_eqb HS).
-Notation apply_loop := (apply_loop hash hash_eqb HS).
-Notation apply_run := (apply_run hash hash_eqb HS).
-Notation tbl_of_events := (tbl_of_events hash).
-Notation db_of_events := (db_of_events hash).
-Notation run_direct := (run_direct hash).
-Notation run_in_tx := (run_in_tx hash).
-Notation Inv := (Inv hash HS all).
-Notation normal := (normal all).
-Notation pos := (pos all).
-Notation upto := (upto all).
-Notation GInv := (GInv hash HS all).
-Notation GDone := (GDone hash HS all).
-Local Notation plen := (length (plan all)).
-
 Definition clean (d : list tfile) : Prop := forall f, In f d -> tf_bad f = None.
+Definition valid (g : mode) (d : list tfile) : Prop := forall tf, In tf d -> mode_for g tf <> None.
 
-Definition Bd (d : db) (k : nat) : Prop :=
-  Inv (d_tbl d) k 0 false /\ d_journal d = map snd (upto (pos k 0)).
-
-Definition DInv (d : db) (D : nat) : Prop :=
-  exists J, d_journal d = map snd J /\ GInv (d_tbl d) J D.
-
-Lemma Bd_DInv d k : Bd d k -> DInv d 0.
-Proof.
-  intros [HI Hj]. exists (upto (pos k 0)). split; [exact Hj|].
-  exists k, 0, false, false, 0. split; [exact HI|]. cbn [b2n]. rewrite Nat.add_0_r.
-  split; [apply stutter_refl|]. split; [|lia].
-  eapply Inv_pos_le; exact HI.
-Qed.
-
-Lemma Bd_empty : Bd (mkDb [] []) 0.
-Proof. split; [apply Inv_nil|reflexivity]. Qed.
-
-(** the model's fault stream of a file without a failing statement is "no fault" *)
-Lemma execute_clean_faults (tf : tfile) (t : list rev) a :
-  tf_bad tf = None -> execute (tf_file tf) t (bad_faults tf a) = execute (tf_file tf) t [].
-Proof.
-  intros Hb. unfold bad_faults. rewrite Hb.
-  assert (forall n, bad_faults_from n a None = []) as -> by (destruct n; reflexivity).
-  reflexivity.
-Qed.
-
-Lemma mode_for_plain m tf : In tf dir -> mode_for m tf = Some m.
-Proof. intros Hin. apply mode_for_none_dir. apply Hnodir. exact Hin. Qed.
-
-(** ** slices of the directory *)
-Definition slice (tfiles : list tfile) (k : nat) : Prop :=
-  tfiles = firstn (length tfiles) (skipn k dir).
-
-Lemma slice_files tfiles k : slice tfiles k ->
-  map tf_file tfiles = firstn (length (map tf_file tfiles)) (skipn k all).
-Proof.
-  intros H. unfold all. rewrite map_length, skipn_map, firstn_map, <- H. reflexivity.
-Qed.
-
-Lemma slice_cons tf rest k : slice (tf :: rest) k ->
-  nth_error dir k = Some tf /\ nth_error all k = Some (tf_file tf) /\ slice rest (S k) /\ In tf dir.
-Proof.
-  unfold slice. cbn [length firstn]. intros H.
-  destruct (skipn k dir) as [|x tl] eqn:E; [discriminate|]. injection H as Ex Er. subst x.
-  apply skipn_cons_inv in E as [Hn Hs]. rewrite <- Hs in Er.
-  split; [exact Hn|]. split; [unfold all; apply map_nth_error; exact Hn|]. split; [exact Er|].
-  eapply nth_error_In; exact Hn.
-Qed.
-
-(** one file, fault-free, from a state that satisfies the invariant *)
-Lemma one_file t k a has f :
-  Inv t k a has -> normal k a has -> nth_error all k = Some f ->
-  exists t1 es,
-    execute f t [] = (ODone, t1, [], es) /\ t1 = tbl_of_events es t /\
-    Inv t1 (S k) 0 false /\ upto (pos k a) ++ journal es = upto (pos (S k) 0).
-Proof.
-  intros HI Hnorm Hn.
-  assert ([f] = firstn (length [f]) (skipn k all)) as Hsl.
-  { simpl. rewrite (skipn_nth_cons all k f Hn). reflexivity. }
-  destruct (execute f t []) as [[[o t1] fs1] es] eqn:EX.
-  pose proof (exec_files_single hash hash_eqb HS f t []) as Hs. rewrite EX in Hs.
-  destruct (exec_files_inv hash hash_eqb HS hash_eqb_spec all Hsorted [f] t [] o t1 fs1 es k a has HI Hnorm Hsl Hs)
-    as (Hp & Hnf & Ht).
-  destruct (Hnf eq_refl) as [-> ->].
-  destruct (Hp es [] ltac:(rewrite app_nil_r; reflexivity)) as (k1 & a1 & has1 & e1 & H1 & H2 & _ & _ & H5).
-  destruct (H5 eq_refl) as [_ Hd].
-  destruct (Hd eq_refl ltac:(left; discriminate)) as (-> & -> & -> & ->).
-  rewrite <- Ht in H1. cbn [b2n] in H2. rewrite Nat.add_0_r in H2.
-  replace (k + length [f]) with (S k) in * by (simpl; lia).
-  exists t1, es. auto.
-Qed.
-
-Lemma one_file_Bd (w0 : db) k f :
-  Bd w0 k -> nth_error all k = Some f ->
-  exists t1 es, execute f (d_tbl w0) [] = (ODone, t1, [], es) /\ Bd (db_of_events es w0) (S k).
-Proof.
-  intros [HI Hj] Hn.
-  destruct (one_file (d_tbl w0) k 0 false f HI ltac:(intros H; discriminate) Hn) as (t1 & es & EX & Ht & HI1 & Hup).
-  exists t1, es. split; [exact EX|]. split.
-  - rewrite db_of_events_tbl, <- Ht. exact HI1.
-  - rewrite db_of_events_journal, Hj, <- map_app, Hup. reflexivity.
-Qed.
-
-Lemma run_in_tx_fst es (w c : db) : fst (run_in_tx es w c) = db_of_events es w.
-Proof.
-  revert w; induction es as [|e es IH]; intros w; simpl; [reflexivity|].
-  destruct (run_in_tx es (apply_event hash w e) c) as [w'' tr] eqn:R.
-  specialize (IH (apply_event hash w e)). rewrite R in IH. exact IH.
-Qed.
-
-Lemma run_direct_app es1 es2 (c : db) :
-  snd (run_direct (es1 ++ es2) c) = snd (run_direct es1 c) ++ snd (run_direct es2 (db_of_events es1 c)).
-Proof.
-  revert c; induction es1 as [|e es1 IH]; intros c; simpl; [reflexivity|].
-  specialize (IH (apply_event hash c e)).
-  destruct (run_direct (es1 ++ es2) (apply_event hash c e)) as [d1 tr1].
-  destruct (run_direct es1 (apply_event hash c e)) as [d2 tr2].
-  simpl in *. rewrite IH. rewrite <- !app_assoc. reflexivity.
-Qed.
-
-Lemma db_of_events_app es1 es2 (c : db) :
-  db_of_events (es1 ++ es2) c = db_of_events es2 (db_of_events es1 c).
-Proof. unfold TxProofs.db_of_events. apply fold_left_app. Qed.
-
-(** ** tx-mode none = the executor's run, event by event *)
-Lemma loop_none_exec : forall tfiles (c : db) k a has,
-  Inv (d_tbl c) k a has -> normal k a has -> slice tfiles k -> clean tfiles ->
-  exists t' es,
-    exec_files (map tf_file tfiles) (d_tbl c) [] = (ODone, t', [], es) /\
-    apply_loop TxNone tfiles c None = (ADone, db_of_events es c, None, snd (run_direct es c)).
-Proof.
-  induction tfiles as [|tf rest IH]; intros c k a has HI Hnorm Hsl Hcl.
-  - exists (d_tbl c), []. split; reflexivity.
-  - destruct (slice_cons tf rest k Hsl) as (Hnd & Hn & Hsl' & Hin).
-    destruct (one_file (d_tbl c) k a has (tf_file tf) HI Hnorm Hn) as (t1 & es1 & EX & Ht1 & HI1 & _).
-    set (c1 := db_of_events es1 c).
-    assert (d_tbl c1 = t1) as Etc1 by (unfold c1; rewrite db_of_events_tbl; symmetry; exact Ht1).
-    destruct (IH c1 (S k) 0 false ltac:(rewrite Etc1; exact HI1) ltac:(intros H; discriminate) Hsl'
-                ltac:(intros g Hg; apply Hcl; right; exact Hg)) as (t' & es_r & EXr & Hloop).
-    exists t', (es1 ++ es_r). split.
-    + cbn [map ExecModel.exec_files]. rewrite EX. rewrite <- Etc1, EXr. reflexivity.
-    + cbn [TxModel.apply_loop]. rewrite (mode_for_plain TxNone tf Hin).
-      rewrite (execute_clean_faults tf _ _ (Hcl tf (or_introl eq_refl))), EX.
-      destruct (run_direct es1 c) as [c1' tr1] eqn:R.
-      destruct (run_direct_spec hash es1 c) as [Hf _]. rewrite R in Hf. simpl in Hf. subst c1'.
-      fold c1. rewrite Hloop. rewrite db_of_events_app, run_direct_app, R. reflexivity.
-Qed.
-
-(** ** tx-mode file: commits are file boundaries *)
-Lemma loop_file_clean : forall tfiles (c : db) k,
-  Bd c k -> slice tfiles k -> clean tfiles ->
-  exists c' tr, apply_loop TxFile tfiles c None = (ADone, c', None, tr) /\
-                Bd c' (k + length tfiles) /\
-                (forall p x, In (p, x) tr -> exists j, Bd x j).
-Proof.
-  induction tfiles as [|tf rest IH]; intros c k HB Hsl Hcl.
-  - exists c, []. split; [reflexivity|]. split; [rewrite Nat.add_0_r; exact HB|intros p x []].
-  - destruct (slice_cons tf rest k Hsl) as (Hnd & Hn & Hsl' & Hin).
-    destruct (one_file_Bd c k (tf_file tf) HB Hn) as (t1 & es1 & EX & HB1).
-    set (w1 := db_of_events es1 c) in *.
-    destruct (IH w1 (S k) HB1 Hsl' ltac:(intros g Hg; apply Hcl; right; exact Hg)) as (c' & tr2 & Hloop & HB' & Htr2).
-    cbn [TxModel.apply_loop]. rewrite (mode_for_plain TxFile tf Hin).
-    rewrite (execute_clean_faults tf _ _ (Hcl tf (or_introl eq_refl))), EX.
-    destruct (run_in_tx es1 c c) as [w1' tr1] eqn:R.
-    pose proof (run_in_tx_fst es1 c c) as Hf. rewrite R in Hf. simpl in Hf. subst w1'. fold w1.
-    pose proof (run_in_tx_trace hash es1 c c) as Htr1. rewrite R in Htr1. simpl in Htr1.
-    rewrite Hloop. eexists _, _. split; [reflexivity|]. split.
-    + replace (k + length (tf :: rest)) with (S k + length rest) by (simpl; lia). exact HB'.
-    + intros p x Hx. apply in_app_or in Hx as [Hx|Hx].
-      * exists k. rewrite (Htr1 p x Hx). exact HB.
-      * simpl in Hx. destruct Hx as [Hx|[Hx|Hx]].
-        -- inversion Hx; subst. exists k. exact HB.
-        -- inversion Hx; subst. exists (S k). exact HB1.
-        -- apply (Htr2 p x Hx).
-Qed.
-
-(** ** tx-mode all: one working copy, committed at the end *)
-Lemma loop_all_clean : forall tfiles (c : db) (w : option db) k,
-  Bd (match w with Some x => x | None => c end) k -> slice tfiles k -> clean tfiles ->
-  exists w1 tr, apply_loop TxAll tfiles c w = (ADone, c, w1, tr) /\
-                Bd (match w1 with Some x => x | None => c end) (k + length tfiles) /\
-                (tfiles <> [] -> w1 <> None).
-Proof.
-  induction tfiles as [|tf rest IH]; intros c w k HB Hsl Hcl.
-  - exists w, []. split; [reflexivity|]. split; [rewrite Nat.add_0_r; exact HB|congruence].
-  - destruct (slice_cons tf rest k Hsl) as (Hnd & Hn & Hsl' & Hin).
-    set (w0 := match w with Some x => x | None => c end) in *.
-    destruct (one_file_Bd w0 k (tf_file tf) HB Hn) as (t1 & es1 & EX & HB1).
-    set (w1 := db_of_events es1 w0) in *.
-    destruct (IH c (Some w1) (S k) HB1 Hsl' ltac:(intros g Hg; apply Hcl; right; exact Hg))
-      as (w2 & tr2 & Hloop & HB' & Hne).
-    cbn [TxModel.apply_loop]. rewrite (mode_for_plain TxAll tf Hin). fold w0.
-    rewrite (execute_clean_faults tf _ _ (Hcl tf (or_introl eq_refl))), EX.
-    destruct (run_in_tx es1 w0 c) as [w1' tr1] eqn:R.
-    pose proof (run_in_tx_fst es1 w0 c) as Hf. rewrite R in Hf. simpl in Hf. subst w1'. fold w1.
-    rewrite Hloop. eexists _, _. split; [reflexivity|]. split.
-    + replace (k + length (tf :: rest)) with (S k + length rest) by (simpl; lia). exact HB'.
-    + intros _. destruct rest as [|x rest'].
-      * simpl in Hloop. inversion Hloop; subst. discriminate.
-      * apply Hne. discriminate.
-Qed.
-
-(** ** the whole command *)
 Lemma filter_unique {A} (key : A -> bytes) (l : list A) x :
   NoDup (map key l) -> In x l -> filter (fun y => bytes_eqb (key y) (key x)) l = [x].
 Proof.
@@ -245,11 +38,402 @@ Proof.
     apply IH; assumption.
 Qed.
 
+Lemma nth_error_ext' {A} (l l' : list A) : (forall i, nth_error l i = nth_error l' i) -> l = l'.
+Proof.
+  revert l'; induction l as [|x l IH]; intros [|y l'] H; [reflexivity| | |].
+  - specialize (H 0). discriminate.
+  - specialize (H 0). discriminate.
+  - pose proof (H 0) as H0. simpl in H0. inversion H0; subst. f_equal. apply IH. intros i. apply (H (S i)).
+Qed.
+
 Lemma In_firstn {A} n (l : list A) x : In x (firstn n l) -> In x l.
 Proof. intros H. rewrite <- (firstn_skipn n l). apply in_or_app. left. exact H. Qed.
 Lemma In_skipn {A} n (l : list A) x : In x (skipn n l) -> In x l.
 Proof. intros H. rewrite <- (firstn_skipn n l). apply in_or_app. right. exact H. Qed.
 
+Section Crash.
+Variable hash : Type.
+Variable hash_eqb : hash -> hash -> bool.
+Variable HS : bytes -> hash.
+Hypothesis hash_eqb_spec : forall a b, hash_eqb a b = true <-> a = b.
+
+Variable dskip dir : list tfile.
+Let all := map tf_file dir.
+Let skipped := map tf_file dskip.
+Hypothesis Hfull : sorted_files (skipped ++ all).
+Hypothesis Hfresh : from_last_ckpt (skipped ++ all) = all.
+
+Lemma Hsorted : sorted_files all.
+Proof. pose proof Hfull as H. apply StronglySorted_app_inv in H as (_ & H & _). exact H. Qed.
+
+Notation rev := (rev hash).
+Notation event := (event hash).
+Notation db := (db hash).
+Notation execute := (execute hash hash_eqb HS).
+Notation exec_files := (exec_files hash hash_eqb HS).
+Notation apply_loop := (apply_loop hash hash_eqb HS).
+Notation apply_run := (apply_run hash hash_eqb HS).
+Notation tbl_of_events := (tbl_of_events hash).
+Notation db_of_events := (db_of_events hash).
+Notation run_direct := (run_direct hash).
+Notation run_in_tx := (run_in_tx hash).
+Notation crash_state := (crash_state hash).
+Notation Inv := (Inv hash HS all).
+Notation normal := (normal all).
+Notation pos := (pos all).
+Notation upto := (upto all).
+Local Notation plen := (length (plan all)).
+Local Notation len f := (length (f_stmts f)).
+
+(** ** states *)
+Definition done_rev (f : file) : rev := mkRev (f_version f) (len f) (len f) [] false 2%N.
+Definition K2 (t : list rev) : Prop := forall r, In r t -> r_kind r = 2%N.
+Definition Lit (t : list rev) (k : nat) : Prop :=
+  forall i f, i < k -> nth_error all i = Some f -> tbl_get t (f_version f) = Some (done_rev f).
+Definition LK (t : list rev) (k : nat) : Prop := K2 t /\ Lit t k.
+
+Definition St (c : db) (D k a : nat) (has e : bool) : Prop :=
+  Inv (d_tbl c) k a has /\
+  exists J d, d_journal c = map snd J /\ stutter d (upto (pos k a + b2n e)) J /\
+              pos k a + b2n e <= plen /\ d + b2n e <= D.
+
+Definition Bd (c : db) (k : nat) : Prop := St c 0 k 0 false false.
+Definition DInv (c : db) (D : nat) : Prop := exists k a has e, St c D k a has e.
+
+Lemma Bd_empty : Bd (mkDb [] []) 0.
+Proof.
+  split; [apply Inv_nil|]. exists [], 0. split; [reflexivity|]. split; [constructor|]. simpl. split; lia.
+Qed.
+
+Lemma LK_empty : LK [] 0.
+Proof. split; [intros r []|intros i f Hi; lia]. Qed.
+
+Lemma St_weaken c D D' k a has e : D <= D' -> St c D k a has e -> St c D' k a has e.
+Proof.
+  intros Hle (HI & J & d & H1 & H2 & H3 & H4). split; [exact HI|]. exists J, d. repeat split; auto. lia.
+Qed.
+
+Lemma Bd_journal c k : Bd c k -> d_journal c = map snd (plan (firstn k all)).
+Proof.
+  intros (_ & J & d & Hj & Hst & _ & Hd). assert (d = 0) as -> by lia.
+  apply stutter_zero in Hst. cbn [b2n] in Hst. rewrite Nat.add_0_r, upto_pos0 in Hst. rewrite Hj, Hst. reflexivity.
+Qed.
+
+Lemma St0 c k a has e : St c 0 k a has e -> e = false.
+Proof. intros (_ & J & d & _ & _ & _ & Hd). destruct e; [simpl in Hd; lia|reflexivity]. Qed.
+
+(** One step: the table moves to (k1, a1, has1), the journal grows by [X]. *)
+Lemma St_step (c c' : db) D k a has e k1 a1 has1 e1 X :
+  St c D k a has e ->
+  Inv (d_tbl c') k1 a1 has1 ->
+  d_journal c' = d_journal c ++ map snd X ->
+  upto (pos k a) ++ X = upto (pos k1 a1 + b2n e1) ->
+  pos k a <= pos k1 a1 -> pos k1 a1 + b2n e1 <= plen ->
+  exists e', St c' (D + b2n e1) k1 a1 has1 e'.
+Proof.
+  intros (HI & J & d & Hj & Hst & HE & HD) HI' Hj' Hup Hle Hb.
+  destruct (stutter_step all (pos k a) e d J X (pos k1 a1) e1 Hst HE Hup Hle Hb) as (e' & d' & S1 & S2 & S3).
+  exists e'. split; [exact HI'|]. exists (J ++ X), d'. split; [rewrite Hj', Hj, map_app; reflexivity|].
+  split; [exact S1|]. split; [exact S2|lia].
+Qed.
+
+(** ** slices of the directory *)
+Definition slice (tfiles : list tfile) (k : nat) : Prop :=
+  tfiles = firstn (length tfiles) (skipn k dir).
+
+Lemma slice_cons tf rest k : slice (tf :: rest) k ->
+  nth_error dir k = Some tf /\ nth_error all k = Some (tf_file tf) /\ slice rest (S k) /\ In tf dir.
+Proof.
+  unfold slice. cbn [length firstn]. intros H.
+  destruct (skipn k dir) as [|x tl] eqn:E; [discriminate|]. injection H as Ex Er. subst x.
+  apply skipn_cons_inv in E as [Hn Hs]. rewrite <- Hs in Er.
+  split; [exact Hn|]. split; [unfold all; apply map_nth_error; exact Hn|]. split; [exact Er|].
+  eapply nth_error_In; exact Hn.
+Qed.
+
+Lemma execute_clean_faults (tf : tfile) (t : list rev) a :
+  tf_bad tf = None -> execute (tf_file tf) t (bad_faults tf a) = execute (tf_file tf) t [].
+Proof.
+  intros Hb. unfold bad_faults. rewrite Hb.
+  assert (forall n, bad_faults_from n a None = []) as -> by (destruct n; reflexivity).
+  reflexivity.
+Qed.
+
+Lemma mode_for_nf g tf : g <> TxAll -> mode_for g tf <> None ->
+  mode_for g tf = Some TxNone \/ mode_for g tf = Some TxFile.
+Proof.
+  unfold mode_for. intros Hg Hv. destruct (tf_directive tf) as [[[| |]|]|]; destruct g; simpl in *; auto; congruence.
+Qed.
+
+Lemma mode_for_all_valid tf : mode_for TxAll tf <> None -> mode_for TxAll tf = Some TxAll.
+Proof. intros Hv. destruct (mode_for_all tf) as [E|E]; [exact E|congruence]. Qed.
+
+(** ** one Execute of file [k] from a resume state *)
+Lemma file_facts (t : list rev) k a has f fs o t1 fs1 es :
+  Inv t k a has -> normal k a has -> nth_error all k = Some f ->
+  execute f t fs = (o, t1, fs1, es) ->
+  t1 = tbl_of_events es t /\
+  (forall x1 x2, es = x1 ++ x2 ->
+     exists a1 has1 e1,
+       Inv (tbl_of_events x1 t) k a1 has1 /\
+       upto (pos k a) ++ journal x1 = upto (pos k a1 + b2n e1) /\
+       pos k a <= pos k a1 /\ pos k a1 + b2n e1 <= plen) /\
+  (o = ODone -> Inv t1 (S k) 0 false /\ upto (pos k a) ++ journal es = upto (pos (S k) 0) /\ all_ok es) /\
+  (o = OStmtErr -> wf es = 0) /\
+  (fs = [] -> o = ODone /\ fs1 = []).
+Proof.
+  intros HI Hnorm Hn EX.
+  destruct (Inv_pre hash HS all Hsorted t k a has f HI Hnorm Hn) as (r0 & Hpre & Htot & Ha).
+  pose proof (pre_applied hash HS f t r0 Hpre) as Hle. rewrite Ha in Hle.
+  destruct (execute_shape hash hash_eqb HS hash_eqb_spec f t r0 Hpre fs o t1 fs1 es EX) as [Hsh Hnf].
+  pose proof (shape_good hash HS f t r0 o t1 es Hpre Htot Hsh) as Hgood. rewrite Ha in Hgood.
+  split; [apply (execute_tbl hash hash_eqb HS f t fs o t1 fs1 es EX)|]. split; [|split; [|split; [|exact Hnf]]].
+  - intros x1 x2 E. rewrite E in Hgood.
+    destruct (file_prefix hash HS all Hsorted t k a has f x1 x2 HI Hnorm Hn Hle Hgood)
+      as (a1 & has1 & e1 & H1 & H2 & H3 & H4 & _).
+    exists a1, has1, e1. split; [exact H1|]. split; [exact H2|]. split; [unfold RunProofs.pos; lia|].
+    rewrite pos_add. apply (pos_bound all k f _ Hn H4).
+  - intros ->.
+    assert ([f] = firstn (length [f]) (skipn k all)) as Hsl.
+    { simpl. rewrite (skipn_nth_cons all k f Hn). reflexivity. }
+    pose proof (exec_files_single hash hash_eqb HS f t fs) as Hs. rewrite EX in Hs.
+    destruct (exec_files_inv hash hash_eqb HS hash_eqb_spec all Hsorted [f] t fs ODone t1 fs1 es k a has HI Hnorm Hsl Hs)
+      as (Hp & _ & Ht).
+    destruct (Hp es [] ltac:(rewrite app_nil_r; reflexivity)) as (k1 & a1 & has1 & e1 & H1 & H2 & _ & _ & H5).
+    destruct (H5 eq_refl) as [_ Hd].
+    destruct (Hd eq_refl ltac:(left; discriminate)) as (-> & -> & -> & ->).
+    rewrite <- Ht in H1. cbn [b2n] in H2. rewrite Nat.add_0_r in H2.
+    replace (k + length [f]) with (S k) in * by (simpl; lia).
+    split; [exact H1|]. split; [exact H2|].
+    destruct (stop_on_fault_execute hash hash_eqb HS _ _ _ _ _ _ _ EX) as [_ Hok]. apply Hok. reflexivity.
+  - intros ->.
+    destruct Hsh as [Ho _ _|c ok3 _ Ho _ _|c s ok3 Hnth _ Hes _|c s _ Ho _ _];
+      try discriminate; [destruct ok3; discriminate|].
+    subst es. assert (r_applied r0 + c < len f) as Hlt by (apply nth_error_Some; congruence).
+    rewrite shape_wf by lia. reflexivity.
+Qed.
+
+(** rows: type and literal completed revisions *)
+Lemma execute_lit (t : list rev) k a has f fs o t1 fs1 es :
+  Inv t k a has -> normal k a has -> nth_error all k = Some f -> K2 t ->
+  execute f t fs = (o, t1, fs1, es) ->
+  K2 t1 /\
+  (forall v', v' <> f_version f -> tbl_get t1 v' = tbl_get t v') /\
+  (o = ODone -> tbl_get t1 (f_version f) = Some (done_rev f)).
+Proof.
+  intros HI Hnorm Hn HK EX.
+  destruct (Inv_pre hash HS all Hsorted t k a has f HI Hnorm Hn) as (r0 & Hpre & Htot & Ha).
+  destruct (execute_shape hash hash_eqb HS hash_eqb_spec f t r0 Hpre fs o t1 fs1 es EX) as [Hsh _].
+  destruct (execute_spec hash hash_eqb HS hash_eqb_spec f t r0 fs o t1 fs1 es Hpre Htot EX)
+    as (_ & _ & _ & _ & _ & _ & _ & _ & _ & Soth & _).
+  assert (r_kind r0 = 2%N) as Hk0.
+  { destruct Hpre as [[_ ->]|[Hg _]]; [reflexivity|]. apply HK. eapply tbl_get_In; exact Hg. }
+  assert (r_version r0 = f_version f) as Hv0 by (apply (pre_version hash HS f t r0 Hpre)).
+  assert (forall c, r_kind (cur hash HS f r0 c) = 2%N) as Kcur.
+  { intros c. unfold cur. destruct (c =? 0); [exact Hk0|exact Hk0]. }
+  assert (forall c, r_kind (sto hash HS f r0 c) = 2%N) as Ksto.
+  { intros c. unfold sto. destruct (c =? 0); [exact Hk0|exact Hk0]. }
+  assert (forall X, r_kind X = 2%N -> K2 (tbl_put t X)) as Kput.
+  { intros X HX r Hr. apply tbl_put_In in Hr as [->|Hr]; [exact HX|apply HK; exact Hr]. }
+  split; [|split; [exact Soth|]].
+  - destruct Hsh as [_ Ht _|c ok3 _ _ _ Ht|c s ok3 _ _ _ Ht|c s _ _ _ Ht]; subst t1.
+    + exact HK.
+    + apply Kput. destruct ok3; [apply Kcur|apply Ksto].
+    + apply Kput. destruct ok3; [apply Kcur|apply Ksto].
+    + apply Kput. apply Ksto.
+  - intros ->.
+    destruct Hsh as [Ho _ _|c ok3 Hc Ho _ Ht|c s ok3 _ Ho _ _|c s _ Ho _ _]; try discriminate.
+    destruct ok3; [|discriminate]. subst t1.
+    assert (set_hashes (cur hash HS f r0 c) [] = done_rev f) as ->.
+    { unfold cur. destruct (c =? 0) eqn:Ec.
+      - apply Nat.eqb_eq in Ec. subst c. rewrite Nat.add_0_r in Hc.
+        destruct has.
+        + exfalso. pose proof (Hnorm eq_refl f Hn). lia.
+        + destruct Hpre as [[_ ->]|[Hg _]].
+          * simpl in Hc. unfold done_rev, set_hashes, set_total, new_rev. simpl. rewrite <- Hc. reflexivity.
+          * exfalso. rewrite (Inv_notin hash HS all Hsorted t k a false k f HI Hn ltac:(simpl; lia)) in Hg. discriminate.
+      - unfold done_rev, set_hashes, rv. simpl. rewrite Hc, Hk0. reflexivity. }
+    replace (f_version f) with (r_version (done_rev f)) at 1 by reflexivity. apply tbl_get_put_same.
+Qed.
+
+Lemma LK_step (t t1 : list rev) k f :
+  nth_error all k = Some f -> LK t k -> K2 t1 ->
+  (forall v', v' <> f_version f -> tbl_get t1 v' = tbl_get t v') ->
+  tbl_get t1 (f_version f) = Some (done_rev f) -> LK t1 (S k).
+Proof.
+  intros Hn [_ HL] HK1 Hoth Hf. split; [exact HK1|].
+  intros i g Hi Hg. destruct (Nat.eq_dec i k) as [->|Hne].
+  - rewrite Hn in Hg. inversion Hg; subst g. exact Hf.
+  - rewrite Hoth; [apply (HL i g); [lia|exact Hg]|].
+    intros E. pose proof (versions_inj all Hsorted i k g f Hg Hn E). lia.
+Qed.
+
+Lemma LK_keep (t t1 : list rev) k f :
+  nth_error all k = Some f -> LK t k -> K2 t1 ->
+  (forall v', v' <> f_version f -> tbl_get t1 v' = tbl_get t v') -> LK t1 k.
+Proof.
+  intros Hn [_ HL] HK1 Hoth. split; [exact HK1|].
+  intros i g Hi Hg. rewrite Hoth; [apply (HL i g); assumption|].
+  intros E. pose proof (versions_inj all Hsorted i k g f Hg Hn E). lia.
+Qed.
+
+Lemma run_in_tx_fst es (w c : db) : fst (run_in_tx es w c) = db_of_events es w.
+Proof.
+  revert w; induction es as [|e es IH]; intros w; simpl; [reflexivity|].
+  destruct (run_in_tx es (apply_event hash w e) c) as [w'' tr] eqn:R.
+  specialize (IH (apply_event hash w e)). rewrite R in IH. exact IH.
+Qed.
+
+(** The whole file ran ([ODone]): the database after its events. *)
+Lemma file_done (c : db) D k a has e f fs t1 fs1 es :
+  St c D k a has e -> normal k a has -> nth_error all k = Some f ->
+  execute f (d_tbl c) fs = (ODone, t1, fs1, es) ->
+  (exists e', St (db_of_events es c) D (S k) 0 false e') /\
+  (LK (d_tbl c) k -> LK (d_tbl (db_of_events es c)) (S k)).
+Proof.
+  intros HS0 Hnorm Hn EX. pose proof HS0 as [HI _].
+  destruct (file_facts (d_tbl c) k a has f fs ODone t1 fs1 es HI Hnorm Hn EX) as (Ht1 & _ & Hd & _).
+  destruct (Hd eq_refl) as (HI1 & Hup & Hok).
+  assert (d_tbl (db_of_events es c) = t1) as Et by (rewrite db_of_events_tbl; symmetry; exact Ht1).
+  split.
+  - destruct (St_step c (db_of_events es c) D k a has e (S k) 0 false false (journal es) HS0
+                ltac:(rewrite Et; exact HI1) (db_of_events_journal hash es c)
+                ltac:(cbn [b2n]; rewrite Nat.add_0_r; exact Hup))
+      as [e' H'].
+    + rewrite (pos_next all k f Hn). unfold RunProofs.pos.
+      destruct HI as (_ & _ & _ & Hk). destruct has.
+      * destruct Hk as (f' & r & Hn' & _ & (_ & _ & Hle & _) & _). rewrite Hn in Hn'. inversion Hn'; subst. lia.
+      * subst a. lia.
+    + cbn [b2n]. rewrite Nat.add_0_r. eapply Inv_pos_le; exact HI1.
+    + exists e'. cbn [b2n] in H'. rewrite Nat.add_0_r in H'. exact H'.
+  - intros HL. destruct (execute_lit (d_tbl c) k a has f fs ODone t1 fs1 es HI Hnorm Hn (proj1 HL) EX) as (K1 & Hoth & Hf).
+    rewrite Et. apply (LK_step (d_tbl c) t1 k f Hn HL K1 Hoth (Hf eq_refl)).
+Qed.
+
+(** A prefix of the file's events (a crash inside the file without transaction). *)
+Lemma file_prefix_state (c : db) D k a has e f fs o t1 fs1 es x1 x2 :
+  St c D k a has e -> normal k a has -> nth_error all k = Some f ->
+  execute f (d_tbl c) fs = (o, t1, fs1, es) -> es = x1 ++ x2 ->
+  exists a1 has1 e1, St (db_of_events x1 c) (D + 1) k a1 has1 e1.
+Proof.
+  intros HS0 Hnorm Hn EX E. pose proof HS0 as [HI _].
+  destruct (file_facts (d_tbl c) k a has f fs o t1 fs1 es HI Hnorm Hn EX) as (_ & Hp & _).
+  destruct (Hp x1 x2 E) as (a1 & has1 & e1 & H1 & H2 & H3 & H4).
+  destruct (St_step c (db_of_events x1 c) D k a has e k a1 has1 e1 (journal x1) HS0
+              ltac:(rewrite db_of_events_tbl; exact H1) (db_of_events_journal hash x1 c) H2 H3 H4) as [e' H'].
+  exists a1, has1, e'. eapply St_weaken; [|exact H']. destruct e1; simpl; lia.
+Qed.
+
+(** ** the apply loop, global mode none or file, per-file effective modes *)
+
+(** What a crash point of the loop can see. *)
+Definition crash_class (g : mode) (D k0 a0 : nat) (has0 : bool) (x : db) : Prop :=
+  (* between files / inside a transactional file: the state the loop started
+     from, or the state after a whole number of further files *)
+  (exists j a has e, St x D j a has e /\ ((j = k0 /\ a = a0 /\ has = has0) \/ (a = 0 /\ has = false))) \/
+  (* inside a file that runs without transaction *)
+  (exists j tf a has e, nth_error dir j = Some tf /\ mode_for g tf = Some TxNone /\ St x (D + 1) j a has e).
+
+Lemma loop_mixed g : g <> TxAll ->
+  forall tfiles (c : db) D k a has e,
+  St c D k a has e -> normal k a has -> slice tfiles k -> clean tfiles -> valid g tfiles ->
+  exists c' tr k' a' has' e',
+    apply_loop g tfiles c None = (ADone, c', None, tr) /\
+    St c' D k' a' has' e' /\ normal k' a' has' /\
+    (tfiles <> [] -> k' = k + length tfiles /\ a' = 0 /\ has' = false) /\
+    (tfiles = [] -> k' = k /\ a' = a /\ has' = has) /\
+    (LK (d_tbl c) k -> LK (d_tbl c') k') /\
+    (forall p x, In (p, x) tr -> crash_class g D k a has x).
+Proof.
+  intros Hg. induction tfiles as [|tf rest IH]; intros c D k a has e HS0 Hnorm Hsl Hcl Hval.
+  - exists c, [], k, a, has, e. split; [reflexivity|]. split; [exact HS0|]. split; [exact Hnorm|].
+    split; [congruence|]. split; [auto|]. split; [auto|intros p x []].
+  - destruct (slice_cons tf rest k Hsl) as (Hnd & Hn & Hsl' & Hin).
+    pose proof HS0 as [HI _].
+    destruct (execute (tf_file tf) (d_tbl c) []) as [[[o1 t1] fs1] es] eqn:EX.
+    destruct (file_facts (d_tbl c) k a has (tf_file tf) [] o1 t1 fs1 es HI Hnorm Hn EX) as (_ & _ & _ & _ & Hnf).
+    destruct (Hnf eq_refl) as [-> ->].
+    destruct (file_done c D k a has e (tf_file tf) [] t1 [] es HS0 Hnorm Hn EX) as ([e1 HS1] & HL1).
+    set (c1 := db_of_events es c) in *.
+    destruct (IH c1 D (S k) 0 false e1 HS1 ltac:(intros H; discriminate) Hsl'
+                ltac:(intros x Hx; apply Hcl; right; exact Hx) ltac:(intros x Hx; apply Hval; right; exact Hx))
+      as (c' & tr2 & k' & a' & has' & e' & Hloop & HS' & Hn' & Hne & Hnil & HL' & Htr2).
+    assert (k' = k + length (tf :: rest) /\ a' = 0 /\ has' = false) as Hfin.
+    { destruct rest as [|y rest'].
+      - destruct (Hnil eq_refl) as (-> & -> & ->). simpl. repeat split; lia.
+      - destruct (Hne ltac:(discriminate)) as (-> & -> & ->). simpl. repeat split; lia. }
+    assert (forall p x, In (p, x) tr2 -> crash_class g D k a has x) as Htr2'.
+    { intros p x Hx. destruct (Htr2 p x Hx) as [(j & a2 & has2 & e2 & H1 & H2)|H]; [left|right; exact H].
+      exists j, a2, has2, e2. split; [exact H1|]. right. destruct H2 as [(_ & -> & ->)|H2]; auto. }
+    cbn [TxModel.apply_loop].
+    rewrite (execute_clean_faults tf _ _ (Hcl tf (or_introl eq_refl))), EX.
+    destruct (mode_for_nf g tf Hg (Hval tf (or_introl eq_refl))) as [Em|Em]; rewrite Em.
+    + (* no transaction: effects are committed one by one *)
+      destruct (run_direct es c) as [c1' tr1] eqn:R.
+      destruct (run_direct_spec hash es c) as [Hf Hsp]. rewrite R in Hf, Hsp. simpl in Hf, Hsp. subst c1'.
+      fold c1. rewrite Hloop.
+      exists c', (tr1 ++ tr2), k', a', has', e'. split; [reflexivity|]. split; [exact HS'|]. split; [exact Hn'|].
+      split; [intros _; exact Hfin|]. split; [discriminate|]. split; [intros HL; apply HL'; apply HL1; exact HL|].
+      intros p x Hx. apply in_app_or in Hx as [Hx|Hx]; [|apply (Htr2' p x Hx)].
+      destruct (Hsp p x Hx) as (m & Hm & ->).
+      destruct (file_prefix_state c D k a has e (tf_file tf) [] ODone t1 [] es (firstn m es) (skipn m es)
+                  HS0 Hnorm Hn EX (eq_sym (firstn_skipn m es))) as (a1 & has1 & e2 & H2).
+      right. exists k, tf, a1, has1, e2. auto.
+    + (* a transaction around the file *)
+      destruct (run_in_tx es c c) as [w1' tr1] eqn:R.
+      pose proof (run_in_tx_fst es c c) as Hf. rewrite R in Hf. simpl in Hf. subst w1'. fold c1.
+      pose proof (run_in_tx_trace hash es c c) as Htr1. rewrite R in Htr1. simpl in Htr1.
+      rewrite Hloop.
+      exists c', (tr1 ++ [(BeforeCommit, c); (AfterCommit, c1)] ++ tr2), k', a', has', e'.
+      split; [reflexivity|]. split; [exact HS'|]. split; [exact Hn'|].
+      split; [intros _; exact Hfin|]. split; [discriminate|]. split; [intros HL; apply HL'; apply HL1; exact HL|].
+      assert (crash_class g D k a has c) as Hc0 by (left; exists k, a, has, e; auto).
+      intros p x Hx. apply in_app_or in Hx as [Hx|Hx]; [rewrite (Htr1 p x Hx); exact Hc0|].
+      simpl in Hx. destruct Hx as [Hx|[Hx|Hx]].
+      * inversion Hx; subst. exact Hc0.
+      * inversion Hx; subst. left. exists (S k), 0, false, e1. auto.
+      * apply (Htr2' p x Hx).
+Qed.
+
+(** ** global mode all: one working copy, committed at the end *)
+Lemma loop_all_clean : forall tfiles (c : db) (w : option db) D k a has e,
+  St (match w with Some x => x | None => c end) D k a has e -> normal k a has ->
+  slice tfiles k -> clean tfiles -> valid TxAll tfiles ->
+  exists w1 tr k' a' has' e',
+    apply_loop TxAll tfiles c w = (ADone, c, w1, tr) /\
+    St (match w1 with Some x => x | None => c end) D k' a' has' e' /\ normal k' a' has' /\
+    (tfiles <> [] -> w1 <> None /\ k' = k + length tfiles /\ a' = 0 /\ has' = false) /\
+    (tfiles = [] -> w1 = w /\ k' = k /\ a' = a /\ has' = has) /\
+    (LK (d_tbl (match w with Some x => x | None => c end)) k ->
+     LK (d_tbl (match w1 with Some x => x | None => c end)) k').
+Proof.
+  induction tfiles as [|tf rest IH]; intros c w D k a has e HS0 Hnorm Hsl Hcl Hval.
+  - exists w, [], k, a, has, e. split; [reflexivity|]. split; [exact HS0|]. split; [exact Hnorm|].
+    split; [congruence|]. split; [auto|auto].
+  - destruct (slice_cons tf rest k Hsl) as (Hnd & Hn & Hsl' & Hin).
+    set (w0 := match w with Some x => x | None => c end) in *.
+    pose proof HS0 as [HI _].
+    destruct (execute (tf_file tf) (d_tbl w0) []) as [[[o1 t1] fs1] es] eqn:EX.
+    destruct (file_facts (d_tbl w0) k a has (tf_file tf) [] o1 t1 fs1 es HI Hnorm Hn EX) as (_ & _ & _ & _ & Hnf).
+    destruct (Hnf eq_refl) as [-> ->].
+    destruct (file_done w0 D k a has e (tf_file tf) [] t1 [] es HS0 Hnorm Hn EX) as ([e1 HS1] & HL1).
+    set (w1 := db_of_events es w0) in *.
+    destruct (IH c (Some w1) D (S k) 0 false e1 HS1 ltac:(intros H; discriminate) Hsl'
+                ltac:(intros x Hx; apply Hcl; right; exact Hx) ltac:(intros x Hx; apply Hval; right; exact Hx))
+      as (w2 & tr2 & k' & a' & has' & e' & Hloop & HS' & Hn' & Hne & Hnil & HL').
+    cbn [TxModel.apply_loop]. rewrite (mode_for_all_valid tf (Hval tf (or_introl eq_refl))). fold w0.
+    rewrite (execute_clean_faults tf _ _ (Hcl tf (or_introl eq_refl))), EX.
+    destruct (run_in_tx es w0 c) as [w1' tr1] eqn:R.
+    pose proof (run_in_tx_fst es w0 c) as Hf. rewrite R in Hf. simpl in Hf. subst w1'. fold w1.
+    rewrite Hloop. exists w2, (tr1 ++ tr2), k', a', has', e'.
+    split; [reflexivity|]. split; [exact HS'|]. split; [exact Hn'|]. split; [|split; [discriminate|]].
+    + intros _. destruct rest as [|y rest'].
+      * destruct (Hnil eq_refl) as (-> & -> & -> & ->). simpl. repeat split; try lia. discriminate.
+      * destruct (Hne ltac:(discriminate)) as (Hw & -> & -> & ->). simpl. repeat split; try lia. exact Hw.
+    + intros HL. apply HL'. apply HL1. exact HL.
+Qed.
+
+(** ** the whole command *)
 Definition dsl (k n : nat) : list tfile :=
   if 0 <? n then firstn n (skipn k dir) else skipn k dir.
 
@@ -270,13 +454,15 @@ Proof.
 Qed.
 
 Lemma tchosen_dsl k n :
-  flat_map (fun f => filter (fun tf => bytes_eqb (f_version (tf_file tf)) (f_version f)) dir)
+  flat_map (fun f => filter (fun tf => bytes_eqb (f_version (tf_file tf)) (f_version f)) (dskip ++ dir))
            (map tf_file (dsl k n)) = dsl k n.
 Proof.
-  assert (NoDup (map (fun tf => f_version (tf_file tf)) dir)) as Hnd.
-  { pose proof (sorted_files_NoDup all Hsorted) as H. unfold all in H. rewrite map_map in H. exact H. }
+  assert (NoDup (map (fun tf => f_version (tf_file tf)) (dskip ++ dir))) as Hnd.
+  { pose proof (sorted_files_NoDup (skipped ++ all) Hfull) as H. unfold skipped, all in H.
+    rewrite <- map_app, map_map in H. exact H. }
   pose proof (dsl_In k n) as Hin. induction (dsl k n) as [|x l IH]; [reflexivity|].
-  simpl. rewrite (filter_unique (fun tf => f_version (tf_file tf)) dir x Hnd (Hin x (or_introl eq_refl))).
+  simpl. rewrite (filter_unique (fun tf => f_version (tf_file tf)) (dskip ++ dir) x Hnd
+                    ltac:(apply in_or_app; right; apply Hin; left; reflexivity)).
   simpl. f_equal. apply IH. intros y Hy. apply Hin. right. exact Hy.
 Qed.
 
@@ -285,20 +471,20 @@ Definition the_cfg : cfg := mkCfg Linear None true true.
 Lemma the_cfg_ok : cfg_ok the_cfg.
 Proof. split; reflexivity. Qed.
 
-Lemma apply_run_unfold global n (c : db) k a has :
+Lemma apply_run_unfold g n (c : db) k a has :
   Inv (d_tbl c) k a has -> normal k a has ->
-  apply_run global n dir c =
+  apply_run g n (dskip ++ dir) c =
   match skipn k all with
   | [] => (APend PNoPending, c, [])
-  | _ => let '(o, c1, w, tr) := apply_loop global (dsl k n) c None in
+  | _ => let '(o, c1, w, tr) := apply_loop g (dsl k n) c None in
          match o, w with
          | ADone, Some wd => (ADone, wd, tr ++ [(BeforeCommit, c1); (AfterCommit, wd)])
          | _, _ => (o, c1, tr)
          end
   end.
 Proof.
-  intros HI Hnorm. unfold TxModel.apply_run. fold all. fold the_cfg.
-  rewrite (pending_inv hash HS all Hsorted Hnock the_cfg (d_tbl c) k a has the_cfg_ok HI Hnorm).
+  intros HI Hnorm. unfold TxModel.apply_run. rewrite map_app. fold all. fold skipped. fold the_cfg.
+  rewrite (pending_inv hash HS all Hsorted skipped Hfull Hfresh the_cfg (d_tbl c) k a has the_cfg_ok HI Hnorm).
   destruct (skipn k all) as [|f l] eqn:E; [reflexivity|].
   cbn [fst finish]. rewrite <- E, (dsl_chosen k n), tchosen_dsl. reflexivity.
 Qed.
@@ -310,117 +496,247 @@ Proof.
   apply Nat.ltb_lt in E. destruct n; [lia|discriminate].
 Qed.
 
-Lemma Bd_final (c : db) : Bd c (length all) ->
-  d_journal c = map snd (plan all) /\
-  (forall f, In f all -> exists r, tbl_get (d_tbl c) (f_version f) = Some r /\
-                                   r_applied r = length (f_stmts f) /\ r_total r = length (f_stmts f)).
+Lemma dsl_full_length k : k <= length all -> k + length (dsl k 0) = length all.
+Proof. intros H. unfold dsl. simpl. rewrite skipn_length. unfold all in *. rewrite map_length in *. lia. Qed.
+
+Lemma skipn_nil_full k a has t : Inv t k a has -> skipn k all = [] -> k = length all /\ a = 0 /\ has = false.
 Proof.
-  intros [HI Hj]. split.
-  - rewrite Hj, pos_all, upto_all. reflexivity.
+  intros (Hm & _ & _ & Hk) E. apply (f_equal (@length _)) in E. rewrite skipn_length in E. simpl in E.
+  destruct has; simpl in Hm; [lia|]. subst a. repeat split; lia.
+Qed.
+
+(** The final state: everything applied. *)
+Definition completed (c : db) (D : nat) : Prop :=
+  (exists reps, length reps = plen /\ list_sum reps <= D /\
+                d_journal c = map snd (expand (plan all) reps)) /\
+  (forall f, In f all -> exists r, tbl_get (d_tbl c) (f_version f) = Some r /\
+                                   r_applied r = len f /\ r_total r = len f).
+
+Lemma St_completed c D a has e : St c D (length all) a has e -> completed c D.
+Proof.
+  intros (HI & J & d & Hj & Hst & HE & HD).
+  assert (a = 0 /\ has = false) as [-> ->].
+  { destruct HI as (Hm & _ & _ & Hk). destruct has; simpl in Hm; [lia|]. auto. }
+  rewrite pos_all in Hst, HE. destruct e; [simpl in HE; lia|]. cbn [b2n] in *.
+  rewrite Nat.add_0_r, upto_all in Hst. split.
+  - destruct (stutter_expand _ _ _ Hst) as (reps & Hl & Hs & ->). exists reps. repeat split; auto. lia.
   - intros f Hin. apply In_nth_error in Hin as [i Hi].
     assert (i < length all) as Hlt by (apply nth_error_Some; congruence).
     destruct HI as (_ & _ & Hrows & _). destruct (Hrows i f Hlt Hi) as (r & Hg & (_ & Hap & _) & Ht).
     exists r. auto.
 Qed.
 
-Lemma Bd_le (c : db) k : Bd c k -> k <= length all.
-Proof. intros [(Hm & _) _]. simpl in Hm. lia. Qed.
-
-Lemma dsl_full_length k : k <= length all -> k + length (dsl k 0) = length all.
-Proof. intros H. unfold dsl. simpl. rewrite skipn_length. unfold all in *. rewrite map_length in *. lia. Qed.
-
-(** file mode: every crash point and the end of the command are file boundaries;
-    without a count the command ends at the last boundary *)
-Lemma run_file_clean (c : db) k n :
-  clean dir -> Bd c k ->
-  exists o c1 tr, apply_run TxFile n dir c = (o, c1, tr) /\
-    (o = ADone \/ o = APend PNoPending) /\ (exists j, Bd c1 j) /\
-    (n = 0 -> Bd c1 (length all)) /\
-    (forall p x, In (p, x) tr -> exists j, Bd x j).
+Lemma completed0 c : completed c 0 -> d_journal c = map snd (plan all).
 Proof.
-  intros Hcl HB. pose proof HB as [HI _].
-  rewrite (apply_run_unfold TxFile n c k 0 false HI ltac:(intros H; discriminate)).
+  intros [(reps & Hl & Hs & Hj) _]. rewrite Hj. f_equal.
+  assert (stutter 0 (plan all) (plan all)) as H0 by apply stutter_refl.
+  clear Hj. revert Hl Hs. generalize (plan all). intros p Hl Hs.
+  assert (forall n, In n reps -> n = 0) as Hz.
+  { clear Hl. induction reps as [|x reps IH]; intros n [].
+    - subst. simpl in Hs. lia.
+    - apply IH; [simpl in Hs; lia|assumption]. }
+  clear Hs. unfold expand. revert reps Hl Hz. induction p as [|y p IH]; intros [|x reps] Hl Hz; try discriminate; [reflexivity|].
+  simpl. rewrite (Hz x (or_introl eq_refl)). simpl. f_equal. apply IH; [simpl in Hl; lia|].
+  intros n Hn. apply Hz. right. exact Hn.
+Qed.
+
+(** The literal final table: one completed revision per file, in order. *)
+Lemma LK_full_table (t : list rev) a has : Inv t (length all) a has -> LK t (length all) -> t = map done_rev all.
+Proof.
+  intros HI [_ HL]. pose proof HI as (Hm & Hmap & _).
+  assert (has = false) as -> by (destruct has; simpl in Hm; [lia|reflexivity]).
+  cbn [b2n] in Hmap. rewrite Nat.add_0_r, firstn_all in Hmap.
+  apply nth_error_ext'. intros i. rewrite nth_error_map.
+  destruct (nth_error all i) as [f|] eqn:Ef.
+  - assert (i < length all) as Hlt by (apply nth_error_Some; congruence).
+    destruct (nth_error t i) as [r|] eqn:Er.
+    + pose proof (HL i f Hlt Ef) as H.
+      rewrite (Inv_row hash HS all Hsorted t (length all) a false i r f HI Er Ef) in H. simpl. congruence.
+    + exfalso. apply nth_error_None in Er.
+      assert (length t = length all) by (rewrite <- (map_length (@r_version hash)), Hmap, map_length; reflexivity). lia.
+  - simpl. apply nth_error_None. apply nth_error_None in Ef.
+    assert (length t = length all) by (rewrite <- (map_length (@r_version hash)), Hmap, map_length; reflexivity). lia.
+Qed.
+
+(** One clean command (no failing statement) from a resume state. *)
+Lemma run_clean g n (c : db) D k a has e :
+  clean dir -> valid g dir -> St c D k a has e -> normal k a has ->
+  exists o c1 tr k1 a1 has1 e1,
+    apply_run g n (dskip ++ dir) c = (o, c1, tr) /\
+    (o = ADone \/ o = APend PNoPending) /\
+    St c1 D k1 a1 has1 e1 /\ normal k1 a1 has1 /\
+    (n = 0 -> k1 = length all) /\
+    (LK (d_tbl c) k -> LK (d_tbl c1) k1) /\
+    (forall p x, In (p, x) tr ->
+       match g with
+       | TxAll => x = c \/ (p = AfterCommit /\ x = c1)
+       | _ => crash_class g D k a has x
+       end).
+Proof.
+  intros Hcl Hval HS0 Hnorm. pose proof HS0 as [HI _].
+  rewrite (apply_run_unfold g n c k a has HI Hnorm).
   destruct (skipn k all) as [|f l] eqn:E.
-  - eexists _, _, _. split; [reflexivity|]. split; [auto|]. split; [eauto|]. split; [|intros p x []].
-    intros _. assert (k = length all) as <-; [|exact HB].
-    pose proof (Bd_le c k HB). apply (f_equal (@length _)) in E. rewrite skipn_length in E. simpl in E. lia.
-  - destruct (loop_file_clean (dsl k n) c k HB (dsl_slice k n) ltac:(intros g Hg; apply Hcl; eapply dsl_In; eauto))
-      as (c' & tr & Hloop & HB' & Htr).
-    rewrite Hloop. eexists _, _, _. split; [reflexivity|]. split; [auto|]. split; [eauto|]. split; [|exact Htr].
-    intros ->. rewrite (dsl_full_length k (Bd_le c k HB)) in HB'. exact HB'.
+  - destruct (skipn_nil_full k a has _ HI E) as (Ek & -> & ->).
+    exists (APend PNoPending), c, [], k, 0, false, e. split; [reflexivity|]. split; [auto|].
+    split; [exact HS0|]. split; [exact Hnorm|]. split; [auto|]. split; [auto|intros p x []].
+  - assert (clean (dsl k n)) as Hcl' by (intros x Hx; apply Hcl; eapply dsl_In; eauto).
+    assert (valid g (dsl k n)) as Hval' by (intros x Hx; apply Hval; eapply dsl_In; eauto).
+    assert (dsl k n <> []) as Hne by (apply dsl_nonempty; rewrite E; discriminate).
+    assert (k <= length all) as Hkl by (destruct HI as (Hm & _); lia).
+    destruct (mode_eqb g TxAll) eqn:Eg.
+    + assert (g = TxAll) as -> by (destruct g; simpl in Eg; congruence).
+      destruct (loop_all_clean (dsl k n) c None D k a has e HS0 Hnorm (dsl_slice k n) Hcl' Hval')
+        as (w1 & tr & k' & a' & has' & e' & Hloop & HS' & Hn' & Hfin & _ & HL').
+      destruct (Hfin Hne) as (Hw & -> & -> & ->). destruct w1 as [wd|]; [|congruence].
+      rewrite Hloop. exists ADone, wd, (tr ++ [(BeforeCommit, c); (AfterCommit, wd)]), (k + length (dsl k n)), 0, false, e'.
+      split; [reflexivity|]. split; [auto|]. split; [exact HS'|]. split; [exact Hn'|].
+      split; [intros ->; apply dsl_full_length; exact Hkl|]. split; [exact HL'|].
+      destruct (apply_loop_all hash hash_eqb HS _ _ _ _ _ _ _ Hloop) as [_ Htr].
+      intros p x Hx. apply in_app_or in Hx as [Hx|Hx]; [left; eapply Htr; eauto|].
+      simpl in Hx. destruct Hx as [Hx|[Hx|[]]]; inversion Hx; subst; auto.
+    + assert (g <> TxAll) as Hg by (intros ->; discriminate).
+      destruct (loop_mixed g Hg (dsl k n) c D k a has e HS0 Hnorm (dsl_slice k n) Hcl' Hval')
+        as (c' & tr & k' & a' & has' & e' & Hloop & HS' & Hn' & Hfin & _ & HL' & Htr).
+      destruct (Hfin Hne) as (-> & -> & ->). rewrite Hloop.
+      exists ADone, c', tr, (k + length (dsl k n)), 0, false, e'.
+      split; [reflexivity|]. split; [auto|]. split; [exact HS'|]. split; [exact Hn'|].
+      split; [intros ->; apply dsl_full_length; exact Hkl|]. split; [exact HL'|].
+      destruct g; [exact Htr|exact Htr|congruence].
 Qed.
 
-Lemma run_all_clean (c : db) k n :
-  clean dir -> Bd c k ->
-  exists o c1 tr, apply_run TxAll n dir c = (o, c1, tr) /\
-    (o = ADone \/ o = APend PNoPending) /\ (exists j, Bd c1 j) /\
-    (n = 0 -> Bd c1 (length all)).
+Lemma crash_state_in' tr pt i (d : db) : crash_state tr pt i = Some d -> In (pt, d) tr.
+Proof. apply crash_state_in. Qed.
+
+(** ** the statements exported to Props_C10 *)
+
+(** Crash anywhere, then run the same command again. *)
+Lemma crash_rerun g (c0 : db) D k0 a0 has0 e0 n o c1 tr pt i d :
+  clean dir -> valid g dir -> St c0 D k0 a0 has0 e0 -> normal k0 a0 has0 ->
+  apply_run g n (dskip ++ dir) c0 = (o, c1, tr) -> crash_state tr pt i = Some d ->
+  (* the state the crash leaves *)
+  DInv d (D + 1) /\
+  match g with
+  | TxAll => d = c0 \/ (pt = AfterCommit /\ d = c1 /\ o = ADone)
+  | _ => crash_class g D k0 a0 has0 d
+  end /\
+  (* the re-run *)
+  exists o2 c2 tr2,
+    apply_run g 0 (dskip ++ dir) d = (o2, c2, tr2) /\ (o2 = ADone \/ o2 = APend PNoPending) /\
+    completed c2 (D + 1) /\ DInv c2 (D + 1) /\
+    (g = TxAll \/ (exists k a has e, St d D k a has e) -> completed c2 D).
 Proof.
-  intros Hcl HB. pose proof HB as [HI _].
-  rewrite (apply_run_unfold TxAll n c k 0 false HI ltac:(intros H; discriminate)).
-  destruct (skipn k all) as [|f l] eqn:E.
-  - eexists _, _, _. split; [reflexivity|]. split; [auto|]. split; [eauto|].
-    intros _. assert (k = length all) as <-; [|exact HB].
-    pose proof (Bd_le c k HB). apply (f_equal (@length _)) in E. rewrite skipn_length in E. simpl in E. lia.
-  - destruct (loop_all_clean (dsl k n) c None k HB (dsl_slice k n) ltac:(intros g Hg; apply Hcl; eapply dsl_In; eauto))
-      as (w1 & tr & Hloop & HB' & Hne).
-    rewrite Hloop. destruct w1 as [wd|].
-    2:{ exfalso. apply (Hne (dsl_nonempty k n ltac:(rewrite E; discriminate))). reflexivity. }
-    eexists _, _, _. split; [reflexivity|]. split; [auto|]. split; [eauto|].
-    intros ->. rewrite (dsl_full_length k (Bd_le c k HB)) in HB'. exact HB'.
+  intros Hcl Hval HS0 Hnorm Hrun Hcr.
+  destruct (run_clean g n c0 D k0 a0 has0 e0 Hcl Hval HS0 Hnorm)
+    as (o' & c1' & tr' & k1 & a1 & has1 & e1 & E & Ho & HS1 & _ & _ & _ & Htr).
+  rewrite E in Hrun. inversion Hrun; subst o' c1' tr'.
+  pose proof (Htr pt d (crash_state_in' tr pt i d Hcr)) as Hd.
+  assert ((exists k a has e, St d D k a has e) \/ (exists k a has e, St d (D + 1) k a has e)) as Hcases.
+  { destruct g.
+    - destruct Hd as [(j & a & has & e & H & _)|(j & tf & a & has & e & _ & _ & H)]; [left|right]; eauto.
+    - destruct Hd as [(j & a & has & e & H & _)|(j & tf & a & has & e & _ & _ & H)]; [left|right]; eauto.
+    - left. destruct Hd as [->|(_ & ->)]; eauto 8. }
+  assert (DInv d (D + 1)) as HD.
+  { destruct Hcases as [(k & a & has & e & H)|H]; [|exact H].
+    exists k, a, has, e. eapply St_weaken; [|exact H]. lia. }
+  split; [exact HD|]. split.
+  { destruct g; [exact Hd|exact Hd|].
+    destruct (apply_run_all_atomic hash hash_eqb HS n (dskip ++ dir) c0 o c1 tr E) as [_ Ht].
+    exact (Ht pt d (crash_state_in' tr pt i d Hcr)). }
+  assert (forall D', (exists k a has e, St d D' k a has e) ->
+            exists o2 c2 tr2, apply_run g 0 (dskip ++ dir) d = (o2, c2, tr2) /\
+                              (o2 = ADone \/ o2 = APend PNoPending) /\ completed c2 D' /\ DInv c2 D') as Hrer.
+  { intros D' (k & a & has & e & HSd).
+    pose proof HSd as (HId & Jd & dd & Hj & Hst & HE & HDd).
+    destruct (normalize hash HS all (d_tbl d) k a has HId) as (k' & a' & has' & HI' & Hn' & Ep).
+    assert (St d D' k' a' has' e) as HSd'.
+    { split; [exact HI'|]. exists Jd, dd. rewrite Ep. auto. }
+    destruct (run_clean g 0 d D' k' a' has' e Hcl Hval HSd' Hn')
+      as (o2 & c2 & tr2 & k2 & a2 & has2 & e2 & E2 & Ho2 & HS2 & _ & Hk2 & _ & _).
+    exists o2, c2, tr2. split; [exact E2|]. split; [exact Ho2|].
+    rewrite (Hk2 eq_refl) in HS2. split; [eapply St_completed; exact HS2|]. eexists _, _, _, _; exact HS2. }
+  destruct (Hrer (D + 1) HD) as (o2 & c2 & tr2 & E2 & Ho2 & Hc2 & HD2).
+  exists o2, c2, tr2. split; [exact E2|]. split; [exact Ho2|]. split; [exact Hc2|]. split; [exact HD2|].
+  intros Hex.
+  assert (exists k a has e, St d D k a has e) as Hex'.
+  { destruct Hex as [->|Hex]; [|exact Hex]. destruct Hcases as [H|H]; [exact H|].
+    destruct Hd as [->|(_ & ->)]; eauto 8. }
+  destruct (Hrer D Hex') as (o3 & c3 & tr3 & E3 & _ & Hc3 & _).
+  rewrite E3 in E2. inversion E2; subst. exact Hc3.
 Qed.
 
-Lemma all_ok_wf0 (es : list event) : all_ok es -> wf es = 0.
+(** *** readable corollaries, from a file boundary *)
+Definition whole_files (c : db) : Prop := exists j, Bd c j /\ d_journal c = map snd (plan (firstn j all)).
+
+Lemma class_boundary g k0 (x : db) :
+  crash_class g 0 k0 0 false x ->
+  whole_files x \/
+  (exists j tf a has e, nth_error dir j = Some tf /\ mode_for g tf = Some TxNone /\ St x 1 j a has e).
 Proof.
-  intros H. unfold wf. apply wf_from_no_wfail. intros r Hin.
-  unfold all_ok in H. rewrite Forall_forall in H. specialize (H _ Hin). discriminate.
+  intros [(j & a & has & e & HS1 & Hc)|H]; [left|right; exact H].
+  assert (a = 0 /\ has = false) as [-> ->] by (destruct Hc as [(_ & -> & ->)|[-> ->]]; auto).
+  rewrite (St0 x j 0 false e HS1) in HS1. exists j. split; [exact HS1|apply Bd_journal; exact HS1].
 Qed.
 
-(** none mode: the command is the executor's run; crash points see event prefixes *)
-Lemma run_none_clean (c : db) D n :
-  clean dir -> DInv c D ->
-  exists o c1 tr, apply_run TxNone n dir c = (o, c1, tr) /\
-    (o = ADone \/ o = APend PNoPending) /\ DInv c1 D /\
-    (n = 0 -> exists J, d_journal c1 = map snd J /\ GDone (d_tbl c1) J D) /\
-    (forall p x, In (p, x) tr -> DInv x (D + 1)).
+(** file mode, every file effectively in file mode *)
+Lemma file_crash_rerun (c0 : db) k0 n o c1 tr pt i d :
+  clean dir -> (forall tf, In tf dir -> mode_for TxFile tf = Some TxFile) -> Bd c0 k0 ->
+  apply_run TxFile n (dskip ++ dir) c0 = (o, c1, tr) -> crash_state tr pt i = Some d ->
+  whole_files d /\
+  exists o2 c2 tr2, apply_run TxFile 0 (dskip ++ dir) d = (o2, c2, tr2) /\
+                    (o2 = ADone \/ o2 = APend PNoPending) /\ completed c2 0 /\
+                    d_journal c2 = map snd (plan all).
 Proof.
-  intros Hcl (J & Hj & HG).
-  pose proof HG as (k0 & a0 & has0 & e & d & HI0 & _).
-  destruct (normalize hash HS all (d_tbl c) k0 a0 has0 HI0) as (k & a & has & HI & Hnorm & _).
-  rewrite (apply_run_unfold TxNone n c k a has HI Hnorm).
-  pose proof (pending_inv hash HS all Hsorted Hnock the_cfg (d_tbl c) k a has the_cfg_ok HI Hnorm) as Hpend.
-  destruct (skipn k all) as [|f l] eqn:E.
-  - pose proof (execute_n_error hash hash_eqb HS the_cfg n all (d_tbl c) [] _ Hpend ltac:(intros p; discriminate)) as EXn.
-    destruct (run_ginv hash hash_eqb HS hash_eqb_spec all Hsorted Hnock the_cfg n (d_tbl c) [] _ _ _ _ J D the_cfg_ok HG EXn)
-      as (G1 & _ & _ & Gd).
-    simpl in G1, Gd. rewrite app_nil_r, Nat.add_0_r in *.
-    eexists _, _, _. split; [reflexivity|]. split; [auto|]. split; [exists J; auto|]. split; [|intros p x []].
-    intros ->. exists J. split; [exact Hj|]. apply Gd; reflexivity.
-  - destruct (loop_none_exec (dsl k n) c k a has HI Hnorm (dsl_slice k n) ltac:(intros g Hg; apply Hcl; eapply dsl_In; eauto))
-      as (t' & es & EXf & Hloop).
-    rewrite Hloop.
-    change (finish (f :: l)) with (PFiles (f :: l)) in Hpend.
-    pose proof (execute_n_first_n hash hash_eqb HS the_cfg n all (d_tbl c) [] _ Hpend) as EXn.
-    rewrite <- E, (dsl_chosen k n), EXf in EXn.
-    destruct (run_ginv hash hash_eqb HS hash_eqb_spec all Hsorted Hnock the_cfg n (d_tbl c) [] _ _ _ _ J D the_cfg_ok HG EXn)
-      as (G1 & Ht & Gp & Gd).
-    assert (wf es = 0) as Hwf.
-    { apply all_ok_wf0. destruct (stop_on_fault_files hash hash_eqb HS _ _ _ _ _ _ _ EXf) as [_ Hok]. apply Hok. reflexivity. }
-    rewrite Hwf, Nat.add_0_r in *.
-    eexists _, _, _. split; [reflexivity|]. split; [auto|].
-    assert (d_journal (db_of_events es c) = map snd (J ++ journal es)) as Hj1.
-    { rewrite db_of_events_journal, Hj, map_app. reflexivity. }
-    split; [|split].
-    + exists (J ++ journal es). split; [exact Hj1|]. rewrite db_of_events_tbl, <- Ht. exact G1.
-    + intros ->. exists (J ++ journal es). split; [exact Hj1|]. rewrite db_of_events_tbl, <- Ht. apply Gd; reflexivity.
-    + intros p x Hx. destruct (run_direct_spec hash es c) as [_ Hsp].
-      destruct (Hsp p x Hx) as (m & Hm & ->).
-      exists (J ++ journal (firstn m es)). split.
-      * rewrite db_of_events_journal, Hj, map_app. reflexivity.
-      * rewrite db_of_events_tbl. apply (Gp (firstn m es) (skipn m es)). symmetry. apply firstn_skipn.
+  intros Hcl Hm HB Hrun Hcr.
+  assert (valid TxFile dir) as Hval by (intros tf Hin; rewrite (Hm tf Hin); discriminate).
+  destruct (crash_rerun TxFile c0 0 k0 0 false false n o c1 tr pt i d Hcl Hval HB ltac:(intros H; discriminate) Hrun Hcr)
+    as (_ & Hc & o2 & c2 & tr2 & E2 & Ho2 & _ & _ & Hex).
+  assert (whole_files d) as Hw.
+  { destruct (class_boundary TxFile k0 d Hc) as [H|(j & tf & a & has & e & Hn & Em & _)]; [exact H|].
+    rewrite (Hm tf (nth_error_In _ _ Hn)) in Em. discriminate. }
+  split; [exact Hw|]. exists o2, c2, tr2. split; [exact E2|]. split; [exact Ho2|].
+  assert (completed c2 0) as Hc2 by (apply Hex; right; destruct Hw as (j & Hj & _); eauto 8).
+  split; [exact Hc2|apply completed0; exact Hc2].
 Qed.
 
-(** what a resume state says about the journal and the table *)
+Lemma all_crash_rerun (c0 : db) k0 n o c1 tr pt i d :
+  clean dir -> valid TxAll dir -> Bd c0 k0 ->
+  apply_run TxAll n (dskip ++ dir) c0 = (o, c1, tr) -> crash_state tr pt i = Some d ->
+  (d = c0 \/ (pt = AfterCommit /\ d = c1 /\ o = ADone)) /\
+  exists o2 c2 tr2, apply_run TxAll 0 (dskip ++ dir) d = (o2, c2, tr2) /\
+                    (o2 = ADone \/ o2 = APend PNoPending) /\ completed c2 0 /\
+                    d_journal c2 = map snd (plan all).
+Proof.
+  intros Hcl Hval HB Hrun Hcr.
+  destruct (crash_rerun TxAll c0 0 k0 0 false false n o c1 tr pt i d Hcl Hval HB ltac:(intros H; discriminate) Hrun Hcr)
+    as (_ & Hc & o2 & c2 & tr2 & E2 & Ho2 & _ & _ & Hex).
+  split; [exact Hc|]. exists o2, c2, tr2. split; [exact E2|]. split; [exact Ho2|].
+  assert (completed c2 0) as Hc2 by (apply Hex; left; reflexivity).
+  split; [exact Hc2|apply completed0; exact Hc2].
+Qed.
+
+(** global mode none or file with any valid per-file directives *)
+Lemma mixed_crash_rerun g (c0 : db) k0 n o c1 tr pt i d :
+  g <> TxAll -> clean dir -> valid g dir -> Bd c0 k0 ->
+  apply_run g n (dskip ++ dir) c0 = (o, c1, tr) -> crash_state tr pt i = Some d ->
+  (whole_files d \/
+   (exists j tf a has e, nth_error dir j = Some tf /\ mode_for g tf = Some TxNone /\ St d 1 j a has e)) /\
+  exists o2 c2 tr2, apply_run g 0 (dskip ++ dir) d = (o2, c2, tr2) /\
+                    (o2 = ADone \/ o2 = APend PNoPending) /\ completed c2 1 /\
+                    (whole_files d -> completed c2 0 /\ d_journal c2 = map snd (plan all)).
+Proof.
+  intros Hg Hcl Hval HB Hrun Hcr.
+  destruct (crash_rerun g c0 0 k0 0 false false n o c1 tr pt i d Hcl Hval HB ltac:(intros H; discriminate) Hrun Hcr)
+    as (_ & Hc & o2 & c2 & tr2 & E2 & Ho2 & Hc21 & _ & Hex).
+  assert (crash_class g 0 k0 0 false d) as Hc' by (destruct g; [exact Hc|exact Hc|congruence]).
+  split; [apply (class_boundary g k0 d Hc')|].
+  exists o2, c2, tr2. split; [exact E2|]. split; [exact Ho2|]. split; [exact Hc21|].
+  intros (j & Hj & _). assert (completed c2 0) as Hc2 by (apply Hex; right; eauto 8).
+  split; [exact Hc2|apply completed0; exact Hc2].
+Qed.
+
+
+
+(** what a resume state says about journal and table (rev_sound) *)
 Lemma DInv_sound (d : db) D :
   DInv d D ->
   exists P E reps,
@@ -428,249 +744,116 @@ Lemma DInv_sound (d : db) D :
     d_journal d = map snd (expand (firstn E (plan all)) reps) /\
     claimed_plan hash all (d_tbl d) = firstn P (plan all).
 Proof.
-  intros (J & Hj & (k & a & has & e & dd & HI & Hst & HE & HD)).
+  intros (k & a & has & e & HI & J & dd & Hj & Hst & HE & HD).
   destruct (stutter_expand _ _ _ Hst) as (reps & Hl & Hs & HJ).
   exists (pos k a), (pos k a + b2n e), reps.
   split; [lia|]. split; [destruct e; simpl; lia|]. split; [exact HE|].
   split; [rewrite Hl; apply upto_length; exact HE|]. split; [lia|].
   split; [rewrite Hj, HJ; reflexivity|].
-  eapply Inv_claimed; eauto.
+  eapply Inv_claimed; eauto. exact Hsorted.
 Qed.
 
-Lemma GDone_sound (t : list rev) J D :
-  GDone t J D ->
-  (exists reps, length reps = plen /\ list_sum reps <= D /\ J = expand (plan all) reps) /\
-  (forall f, In f all -> exists r, tbl_get t (f_version f) = Some r /\
-                                   r_applied r = length (f_stmts f) /\ r_total r = length (f_stmts f)).
-Proof.
-  intros (HI & d & Hst & Hd). split.
-  - destruct (stutter_expand _ _ _ Hst) as (reps & Hl & Hs & HJ). exists reps. repeat split; auto. lia.
-  - intros f Hin. apply In_nth_error in Hin as [i Hi].
-    assert (i < length all) as Hlt by (apply nth_error_Some; congruence).
-    destruct HI as (_ & _ & Hrows & _). destruct (Hrows i f Hlt Hi) as (r & Hg & (_ & Hap & _) & Ht).
-    exists r. auto.
-Qed.
-
-(** ** the statements exported to Props_C10 *)
-Notation crash_state := (crash_state hash).
-
-Definition completed (c : db) : Prop :=
-  d_journal c = map snd (plan all) /\
-  (forall f, In f all -> exists r, tbl_get (d_tbl c) (f_version f) = Some r /\
-                                   r_applied r = length (f_stmts f) /\ r_total r = length (f_stmts f)).
-
-Lemma Bd_whole_files (d : db) j : Bd d j -> d_journal d = map snd (plan (firstn j all)).
-Proof. intros [_ Hj]. rewrite Hj, upto_pos0. reflexivity. Qed.
-
-Lemma file_crash_rerun (c0 : db) k0 n o c1 tr pt i d :
-  clean dir -> Bd c0 k0 ->
-  apply_run TxFile n dir c0 = (o, c1, tr) -> crash_state tr pt i = Some d ->
-  (exists j, Bd d j /\ d_journal d = map snd (plan (firstn j all))) /\
-  exists o2 c2 tr2, apply_run TxFile 0 dir d = (o2, c2, tr2) /\
-                    (o2 = ADone \/ o2 = APend PNoPending) /\ completed c2 /\ Bd c2 (length all).
-Proof.
-  intros Hcl HB Hrun Hcr.
-  destruct (run_file_clean c0 k0 n Hcl HB) as (o' & c1' & tr' & E & _ & _ & _ & Htr).
-  rewrite E in Hrun. inversion Hrun; subst o' c1' tr'.
-  destruct (Htr pt d (crash_state_in hash tr pt i d Hcr)) as [j HBd].
-  split; [exists j; split; [exact HBd|apply Bd_whole_files; exact HBd]|].
-  destruct (run_file_clean d j 0 Hcl HBd) as (o2 & c2 & tr2 & E2 & Ho2 & _ & Hfin & _).
-  exists o2, c2, tr2. split; [exact E2|]. split; [exact Ho2|].
-  split; [apply Bd_final; apply Hfin; reflexivity|apply Hfin; reflexivity].
-Qed.
-
-Lemma all_crash_rerun (c0 : db) k0 n o c1 tr pt i d :
-  clean dir -> Bd c0 k0 ->
-  apply_run TxAll n dir c0 = (o, c1, tr) -> crash_state tr pt i = Some d ->
-  (d = c0 \/ (pt = AfterCommit /\ d = c1 /\ o = ADone)) /\
-  (exists j, Bd d j /\ d_journal d = map snd (plan (firstn j all))) /\
-  exists o2 c2 tr2, apply_run TxAll 0 dir d = (o2, c2, tr2) /\
-                    (o2 = ADone \/ o2 = APend PNoPending) /\ completed c2 /\ Bd c2 (length all).
-Proof.
-  intros Hcl HB Hrun Hcr.
-  destruct (run_all_clean c0 k0 n Hcl HB) as (o' & c1' & tr' & E & _ & [j1 HB1] & _).
-  rewrite E in Hrun. inversion Hrun; subst o' c1' tr'.
-  destruct (apply_run_all_atomic hash hash_eqb HS n dir c0 o c1 tr E) as [_ Ht].
-  pose proof (Ht pt d (crash_state_in hash tr pt i d Hcr)) as Hd.
-  split; [exact Hd|].
-  assert (exists j, Bd d j) as [j HBd].
-  { destruct Hd as [->|(_ & -> & _)]; eauto. }
-  split; [exists j; split; [exact HBd|apply Bd_whole_files; exact HBd]|].
-  destruct (run_all_clean d j 0 Hcl HBd) as (o2 & c2 & tr2 & E2 & Ho2 & _ & Hfin).
-  exists o2, c2, tr2. split; [exact E2|]. split; [exact Ho2|].
-  split; [apply Bd_final; apply Hfin; reflexivity|apply Hfin; reflexivity].
-Qed.
-
-Lemma none_crash_rerun (c0 : db) D n o c1 tr pt i d :
-  clean dir -> DInv c0 D ->
-  apply_run TxNone n dir c0 = (o, c1, tr) -> crash_state tr pt i = Some d ->
-  DInv d (D + 1) /\
-  exists o2 c2 tr2, apply_run TxNone 0 dir d = (o2, c2, tr2) /\
-    (o2 = ADone \/ o2 = APend PNoPending) /\
-    (exists reps, length reps = plen /\ list_sum reps <= D + 1 /\
-                  d_journal c2 = map snd (expand (plan all) reps)) /\
-    (forall f, In f all -> exists r, tbl_get (d_tbl c2) (f_version f) = Some r /\
-                                     r_applied r = length (f_stmts f) /\ r_total r = length (f_stmts f)) /\
-    DInv c2 (D + 1).
-Proof.
-  intros Hcl HD Hrun Hcr.
-  destruct (run_none_clean c0 D n Hcl HD) as (o' & c1' & tr' & E & _ & _ & _ & Htr).
-  rewrite E in Hrun. inversion Hrun; subst o' c1' tr'.
-  pose proof (Htr pt d (crash_state_in hash tr pt i d Hcr)) as HDd.
-  split; [exact HDd|].
-  destruct (run_none_clean d (D + 1) 0 Hcl HDd) as (o2 & c2 & tr2 & E2 & Ho2 & HD2 & Hfin & _).
-  destruct (Hfin eq_refl) as (J & Hj & HG).
-  destruct (GDone_sound (d_tbl c2) J (D + 1) HG) as ((reps & Hl & Hs & ->) & Hrows).
-  exists o2, c2, tr2. split; [exact E2|]. split; [exact Ho2|].
-  split; [exists reps; auto|]. split; [exact Hrows|exact HD2].
-Qed.
-
-Lemma rev_sound_lemma global (c0 : db) k0 n o c1 tr pt i d :
-  clean dir -> Bd c0 k0 ->
-  apply_run global n dir c0 = (o, c1, tr) -> crash_state tr pt i = Some d ->
+Lemma rev_sound_lemma g (c0 : db) k0 n o c1 tr pt i d :
+  clean dir -> valid g dir -> Bd c0 k0 ->
+  apply_run g n (dskip ++ dir) c0 = (o, c1, tr) -> crash_state tr pt i = Some d ->
   exists P E reps,
     P <= E /\ E <= P + 1 /\ E <= plen /\ length reps = E /\ list_sum reps <= 1 /\
     d_journal d = map snd (expand (firstn E (plan all)) reps) /\
     claimed_plan hash all (d_tbl d) = firstn P (plan all).
 Proof.
-  intros Hcl HB Hrun Hcr.
-  assert (DInv d 1) as HD.
-  { destruct global.
-    - destruct (none_crash_rerun c0 0 n o c1 tr pt i d Hcl (Bd_DInv c0 k0 HB) Hrun Hcr) as [H _]. exact H.
-    - destruct (file_crash_rerun c0 k0 n o c1 tr pt i d Hcl HB Hrun Hcr) as [(j & Hj & _) _].
-      destruct (Bd_DInv d j Hj) as (J & H1 & (k & a & has & e & dd & G1 & G2 & G3 & G4)).
-      exists J. split; [exact H1|]. exists k, a, has, e, dd. split; [exact G1|split; [exact G2|split; [exact G3|lia]]].
-    - destruct (all_crash_rerun c0 k0 n o c1 tr pt i d Hcl HB Hrun Hcr) as (_ & (j & Hj & _) & _).
-      destruct (Bd_DInv d j Hj) as (J & H1 & (k & a & has & e & dd & G1 & G2 & G3 & G4)).
-      exists J. split; [exact H1|]. exists k, a, has, e, dd. split; [exact G1|split; [exact G2|split; [exact G3|lia]]]. }
-  apply DInv_sound. exact HD.
+  intros Hcl Hval HB Hrun Hcr.
+  destruct (crash_rerun g c0 0 k0 0 false false n o c1 tr pt i d Hcl Hval HB ltac:(intros H; discriminate) Hrun Hcr)
+    as (HD & _). apply (DInv_sound d 1 HD).
+Qed.
+
+(** After a failed statement the file's revision is partial. *)
+Lemma stmt_err_partial (t : list rev) k a has f fs t1 fs1 es a1 has1 :
+  Inv t k a has -> normal k a has -> nth_error all k = Some f ->
+  execute f t fs = (OStmtErr, t1, fs1, es) -> Inv t1 k a1 has1 -> normal k a1 has1.
+Proof.
+  intros HI Hnorm Hn EX HI1 -> f' Hn'. rewrite Hn in Hn'. inversion Hn'; subst f'.
+  destruct (Inv_pre hash HS all Hsorted t k a has f HI Hnorm Hn) as (r0 & Hpre & Htot & Ha).
+  destruct (execute_shape hash hash_eqb HS hash_eqb_spec f t r0 Hpre fs _ _ _ _ EX) as [Hsh _].
+  destruct HI1 as (_ & _ & _ & (g & r & Hg & Hgr & (_ & Hap & _) & _)). rewrite Hn in Hg. inversion Hg; subst g.
+  destruct Hsh as [Ho _ _|c ok3 _ Ho _ _|c s ok3 Hnth _ _ Ht|c s _ Ho _ _];
+    try discriminate; [destruct ok3; discriminate|].
+  assert (r_applied r0 + c < len f) as Hlt by (apply nth_error_Some; congruence).
+  assert (r_version (if ok3 then set_err (cur hash HS f r0 c) true else sto hash HS f r0 c) = f_version f) as Hv.
+  { destruct ok3; [simpl; apply (cur_version hash HS f t r0 Hpre)|apply (sto_version hash HS f t r0 Hpre)]. }
+  assert (r_applied (if ok3 then set_err (cur hash HS f r0 c) true else sto hash HS f r0 c) = r_applied r0 + c) as Hap'.
+  { unfold cur, sto. destruct ok3; destruct (c =? 0) eqn:Ec; simpl; try reflexivity;
+      apply Nat.eqb_eq in Ec; subst c; lia. }
+  subst t1. rewrite <- Hv, tbl_get_put_same in Hgr. inversion Hgr; subst r. lia.
 Qed.
 
 (** ** failing statements ([tf_bad]): where a failed command leaves the database *)
-Lemma one_file_any (t : list rev) k a has f fs o t1 fs1 es :
-  Inv t k a has -> normal k a has -> nth_error all k = Some f ->
-  execute f t fs = (o, t1, fs1, es) ->
-  t1 = tbl_of_events es t /\
-  (o = ODone -> Inv t1 (S k) 0 false /\ upto (pos k a) ++ journal es = upto (pos (S k) 0)).
+Lemma loop_any g : g <> TxAll ->
+  forall tfiles (c : db) D k a has e,
+  St c D k a has e -> normal k a has -> slice tfiles k -> valid g tfiles -> LK (d_tbl c) k ->
+  exists o c' tr, apply_loop g tfiles c None = (o, c', None, tr) /\
+    (o = ADone \/ o = AFail OStmtErr ->
+     exists k' a' has' e', St c' D k' a' has' e' /\ normal k' a' has' /\ LK (d_tbl c') k').
 Proof.
-  intros HI Hnorm Hn EX.
-  assert ([f] = firstn (length [f]) (skipn k all)) as Hsl.
-  { simpl. rewrite (skipn_nth_cons all k f Hn). reflexivity. }
-  pose proof (exec_files_single hash hash_eqb HS f t fs) as Hs. rewrite EX in Hs.
-  destruct (exec_files_inv hash hash_eqb HS hash_eqb_spec all Hsorted [f] t fs o t1 fs1 es k a has HI Hnorm Hsl Hs)
-    as (Hp & _ & Ht).
-  split; [exact Ht|]. intros ->.
-  destruct (Hp es [] ltac:(rewrite app_nil_r; reflexivity)) as (k1 & a1 & has1 & e1 & H1 & H2 & _ & _ & H5).
-  destruct (H5 eq_refl) as [_ Hd].
-  destruct (Hd eq_refl ltac:(left; discriminate)) as (-> & -> & -> & ->).
-  rewrite <- Ht in H1. cbn [b2n] in H2. rewrite Nat.add_0_r in H2.
-  replace (k + length [f]) with (S k) in * by (simpl; lia). auto.
-Qed.
-
-Lemma wf_stmt_err (t : list rev) k a has f fs t1 fs1 es :
-  Inv t k a has -> normal k a has -> nth_error all k = Some f ->
-  execute f t fs = (OStmtErr, t1, fs1, es) -> wf es = 0.
-Proof.
-  intros HI Hnorm Hn EX.
-  destruct (Inv_pre hash HS all Hsorted t k a has f HI Hnorm Hn) as (r0 & Hpre & Htot & Ha).
-  destruct (execute_shape hash hash_eqb HS hash_eqb_spec f t r0 Hpre fs _ _ _ _ EX) as [Hsh _].
-  destruct Hsh as [Ho _ _|c ok3 _ Ho _ _|c s ok3 Hnth _ Hes _|c s _ Ho _ _];
-    try discriminate; [destruct ok3; discriminate|].
-  subst es. assert (r_applied r0 + c < length (f_stmts f)) as Hlt by (apply nth_error_Some; congruence).
-  rewrite shape_wf by lia. reflexivity.
-Qed.
-
-Lemma loop_file_any : forall tfiles (c : db) k,
-  Bd c k -> slice tfiles k ->
-  exists o c' tr, apply_loop TxFile tfiles c None = (o, c', None, tr) /\
-                  (exists j, Bd c' j) /\ (o = ADone -> Bd c' (k + length tfiles)).
-Proof.
-  induction tfiles as [|tf rest IH]; intros c k HB Hsl.
-  - exists ADone, c, []. split; [reflexivity|]. split; [eauto|]. intros _. rewrite Nat.add_0_r. exact HB.
+  intros Hg. induction tfiles as [|tf rest IH]; intros c D k a has e HS0 Hnorm Hsl Hval HL.
+  - exists ADone, c, []. split; [reflexivity|]. intros _. exists k, a, has, e. auto.
   - destruct (slice_cons tf rest k Hsl) as (Hnd & Hn & Hsl' & Hin).
-    pose proof HB as [HI Hj].
-    cbn [TxModel.apply_loop]. rewrite (mode_for_plain TxFile tf Hin).
-    destruct (execute (tf_file tf) (d_tbl c) _) as [[[o1 t1] fs1] es1] eqn:EX.
-    destruct (one_file_any (d_tbl c) k 0 false (tf_file tf) _ o1 t1 fs1 es1 HI ltac:(intros H; discriminate) Hn EX)
-      as (Ht1 & Hdone).
-    destruct (run_in_tx es1 c c) as [w1' tr1] eqn:R.
-    pose proof (run_in_tx_fst es1 c c) as Hf. rewrite R in Hf. simpl in Hf. subst w1'.
-    destruct o1;
-      try (eexists _, _, _; split; [reflexivity|]; split; [eauto|]; intros H; discriminate).
-    destruct (Hdone eq_refl) as [HI1 Hup].
-    assert (Bd (db_of_events es1 c) (S k)) as HB1.
-    { split; [rewrite db_of_events_tbl, <- Ht1; exact HI1|].
-      rewrite db_of_events_journal, Hj, <- map_app, Hup. reflexivity. }
-    destruct (IH (db_of_events es1 c) (S k) HB1 Hsl') as (o2 & c' & tr2 & Hloop & HBj & Hd).
-    rewrite Hloop. eexists _, _, _. split; [reflexivity|]. split; [exact HBj|].
-    intros Ho. replace (k + length (tf :: rest)) with (S k + length rest) by (simpl; lia). apply Hd. exact Ho.
+    pose proof HS0 as [HI _].
+    cbn [TxModel.apply_loop].
+    destruct (execute (tf_file tf) (d_tbl c) _) as [[[o1 t1] fs1] es] eqn:EX.
+    destruct (file_facts (d_tbl c) k a has (tf_file tf) _ o1 t1 fs1 es HI Hnorm Hn EX) as (Ht1 & Hp & _ & Hwf & _).
+    destruct (execute_lit (d_tbl c) k a has (tf_file tf) _ o1 t1 fs1 es HI Hnorm Hn (proj1 HL) EX) as (K1 & Hoth & _).
+    assert (o1 = ODone ->
+            exists o c' tr, apply_loop g rest (db_of_events es c) None = (o, c', None, tr) /\
+              (o = ADone \/ o = AFail OStmtErr -> exists k' a' has' e', St c' D k' a' has' e' /\ normal k' a' has' /\ LK (d_tbl c') k')) as Hcont.
+    { intros ->. destruct (file_done c D k a has e (tf_file tf) _ t1 fs1 es HS0 Hnorm Hn EX) as ([e1 HS1] & HL1).
+      apply (IH (db_of_events es c) D (S k) 0 false e1 HS1 ltac:(intros H; discriminate) Hsl'
+               ltac:(intros x Hx; apply Hval; right; exact Hx) (HL1 HL)). }
+    destruct (mode_for_nf g tf Hg (Hval tf (or_introl eq_refl))) as [Em|Em]; rewrite Em.
+    + destruct (run_direct es c) as [c1' tr1] eqn:R.
+      destruct (run_direct_spec hash es c) as [Hf _]. rewrite R in Hf. simpl in Hf. subst c1'.
+      destruct o1.
+      * destruct (Hcont eq_refl) as (o2 & c' & tr2 & Hloop & H2). rewrite Hloop. eexists _, _, _. split; [reflexivity|exact H2].
+      * eexists _, _, _. split; [reflexivity|]. intros _.
+        destruct (file_whole hash hash_eqb HS hash_eqb_spec all Hsorted (d_tbl c) k a has (tf_file tf) _ _ _ _ _ HI Hnorm Hn EX)
+          as (a1 & has1 & e1 & H1 & H2 & H3 & H4 & H5).
+        rewrite (Hwf eq_refl) in H5. destruct e1; [discriminate|].
+        destruct (St_step c (db_of_events es c) D k a has e k a1 has1 false (journal es) HS0
+                    ltac:(rewrite db_of_events_tbl, <- Ht1; exact H1) (db_of_events_journal hash es c) H2
+                    ltac:(unfold RunProofs.pos; lia)
+                    ltac:(rewrite pos_add; apply (pos_bound all k _ _ Hn H4))) as [e' H'].
+        cbn [b2n] in H'. rewrite Nat.add_0_r in H'.
+        exists k, a1, has1, e'. split; [exact H'|].
+        split; [apply (stmt_err_partial (d_tbl c) k a has (tf_file tf) _ t1 fs1 es a1 has1 HI Hnorm Hn EX H1)|].
+        rewrite db_of_events_tbl, <- Ht1. apply (LK_keep (d_tbl c) t1 k (tf_file tf) Hn HL K1 Hoth).
+      * eexists _, _, _. split; [reflexivity|]. intros [H|H]; discriminate.
+      * eexists _, _, _. split; [reflexivity|]. intros [H|H]; discriminate.
+      * eexists _, _, _. split; [reflexivity|]. intros [H|H]; discriminate.
+    + destruct (run_in_tx es c c) as [w1' tr1] eqn:R.
+      pose proof (run_in_tx_fst es c c) as Hf. rewrite R in Hf. simpl in Hf. subst w1'.
+      destruct o1.
+      * destruct (Hcont eq_refl) as (o2 & c' & tr2 & Hloop & H2). rewrite Hloop. eexists _, _, _. split; [reflexivity|exact H2].
+      * eexists _, _, _. split; [reflexivity|]. intros _. exists k, a, has, e. auto.
+      * eexists _, _, _. split; [reflexivity|]. intros _. exists k, a, has, e. auto.
+      * eexists _, _, _. split; [reflexivity|]. intros _. exists k, a, has, e. auto.
+      * eexists _, _, _. split; [reflexivity|]. intros _. exists k, a, has, e. auto.
 Qed.
 
-Lemma run_file_any (c : db) k n :
-  Bd c k -> exists o c1 tr, apply_run TxFile n dir c = (o, c1, tr) /\ exists j, Bd c1 j.
+Lemma run_any g n (c : db) D k a has e o c1 tr :
+  valid g dir -> St c D k a has e -> normal k a has -> LK (d_tbl c) k ->
+  apply_run g n (dskip ++ dir) c = (o, c1, tr) -> o = AFail OStmtErr ->
+  exists k' a' has' e', St c1 D k' a' has' e' /\ normal k' a' has' /\ LK (d_tbl c1) k'.
 Proof.
-  intros HB. pose proof HB as [HI _].
-  rewrite (apply_run_unfold TxFile n c k 0 false HI ltac:(intros H; discriminate)).
-  destruct (skipn k all) as [|f l] eqn:E; [eexists _, _, _; split; [reflexivity|eauto]|].
-  destruct (loop_file_any (dsl k n) c k HB (dsl_slice k n)) as (o & c' & tr & Hloop & HBj & _).
-  rewrite Hloop. destruct o; eexists _, _, _; (split; [reflexivity|exact HBj]).
-Qed.
-
-Lemma loop_none_any : forall tfiles (c : db) k a has J D,
-  Inv (d_tbl c) k a has -> normal k a has -> slice tfiles k ->
-  d_journal c = map snd J -> GInv (d_tbl c) J D ->
-  exists o c' tr, apply_loop TxNone tfiles c None = (o, c', None, tr) /\
-                  (o = ADone \/ o = AFail OStmtErr -> DInv c' D).
-Proof.
-  induction tfiles as [|tf rest IH]; intros c k a has J D HI Hnorm Hsl Hj HG.
-  - exists ADone, c, []. split; [reflexivity|]. intros _. exists J. auto.
-  - destruct (slice_cons tf rest k Hsl) as (Hnd & Hn & Hsl' & Hin).
-    cbn [TxModel.apply_loop]. rewrite (mode_for_plain TxNone tf Hin).
-    destruct (execute (tf_file tf) (d_tbl c) _) as [[[o1 t1] fs1] es1] eqn:EX.
-    destruct (one_file_any (d_tbl c) k a has (tf_file tf) _ o1 t1 fs1 es1 HI Hnorm Hn EX) as (Ht1 & Hdone).
-    (* this Execute is one ExecuteN with count 1 *)
-    pose proof (pending_inv hash HS all Hsorted Hnock the_cfg (d_tbl c) k a has the_cfg_ok HI Hnorm) as Hpend.
-    rewrite (skipn_nth_cons all k _ Hn) in Hpend. cbn [finish] in Hpend.
-    pose proof (execute_n_first_n hash hash_eqb HS the_cfg 1 all (d_tbl c)
-                  (bad_faults tf (stored_applied hash (d_tbl c) (f_version (tf_file tf)))) _ Hpend) as EXn.
-    cbn [Nat.ltb Nat.leb firstn] in EXn. rewrite exec_files_single, EX in EXn.
-    destruct (run_ginv hash hash_eqb HS hash_eqb_spec all Hsorted Hnock the_cfg 1 (d_tbl c) _ _ _ _ _ J D the_cfg_ok HG EXn)
-      as (G1 & _ & _ & _).
-    destruct (run_direct es1 c) as [c1' tr1] eqn:R.
-    destruct (run_direct_spec hash es1 c) as [Hf _]. rewrite R in Hf. simpl in Hf. subst c1'.
-    assert (d_journal (db_of_events es1 c) = map snd (J ++ journal es1)) as Hj1.
-    { rewrite db_of_events_journal, Hj, map_app. reflexivity. }
-    assert (d_tbl (db_of_events es1 c) = t1) as Et1 by (rewrite db_of_events_tbl; symmetry; exact Ht1).
-    destruct o1.
-    + (* file done *)
-      destruct (Hdone eq_refl) as [HI1 _].
-      assert (wf es1 = 0) as Hwf.
-      { apply all_ok_wf0. destruct (stop_on_fault_execute hash hash_eqb HS _ _ _ _ _ _ _ EX) as [_ Hok]. apply Hok. reflexivity. }
-      rewrite Hwf, Nat.add_0_r in G1.
-      destruct (IH (db_of_events es1 c) (S k) 0 false (J ++ journal es1) D
-                  ltac:(rewrite Et1; exact HI1) ltac:(intros H; discriminate) Hsl' Hj1 ltac:(rewrite Et1; exact G1))
-        as (o2 & c' & tr2 & Hloop & HD).
-      rewrite Hloop. eexists _, _, _. split; [reflexivity|exact HD].
-    + eexists _, _, _. split; [reflexivity|]. intros _.
-      rewrite (wf_stmt_err (d_tbl c) k a has (tf_file tf) _ _ _ _ HI Hnorm Hn EX), Nat.add_0_r in G1.
-      exists (J ++ journal es1). split; [exact Hj1|]. rewrite Et1. exact G1.
-    + eexists _, _, _. split; [reflexivity|]. intros [H|H]; discriminate.
-    + eexists _, _, _. split; [reflexivity|]. intros [H|H]; discriminate.
-    + eexists _, _, _. split; [reflexivity|]. intros [H|H]; discriminate.
-Qed.
-
-Lemma run_none_any (c : db) k n o c1 tr :
-  Bd c k -> apply_run TxNone n dir c = (o, c1, tr) ->
-  o = ADone \/ o = AFail OStmtErr -> DInv c1 0.
-Proof.
-  intros HB Hrun Ho. pose proof HB as [HI Hj].
-  rewrite (apply_run_unfold TxNone n c k 0 false HI ltac:(intros H; discriminate)) in Hrun.
-  destruct (skipn k all) as [|f l] eqn:E.
-  - inversion Hrun; subst. destruct Ho; discriminate.
-  - destruct (Bd_DInv c k HB) as (J & HJ & HG).
-    destruct (loop_none_any (dsl k n) c k 0 false J 0 HI ltac:(intros H; discriminate) (dsl_slice k n) HJ HG)
-      as (o' & c' & tr' & Hloop & HD).
-    rewrite Hloop in Hrun. destruct o'; inversion Hrun; subst; apply HD; exact Ho.
+  intros Hval HS0 Hnorm HL Hrun Ho. pose proof HS0 as [HI _].
+  destruct (mode_eqb g TxAll) eqn:Eg.
+  - assert (g = TxAll) as -> by (destruct g; simpl in Eg; congruence).
+    destruct (apply_run_all_atomic hash hash_eqb HS n (dskip ++ dir) c o c1 tr Hrun) as [Hc _].
+    rewrite Hc by (rewrite Ho; discriminate). eauto 8.
+  - assert (g <> TxAll) as Hg by (intros ->; discriminate).
+    rewrite (apply_run_unfold g n c k a has HI Hnorm) in Hrun.
+    destruct (skipn k all) as [|f l] eqn:E; [inversion Hrun; subst; discriminate|].
+    destruct (loop_any g Hg (dsl k n) c D k a has e HS0 Hnorm (dsl_slice k n)
+                ltac:(intros x Hx; apply Hval; eapply dsl_In; eauto) HL) as (o' & c' & tr' & Hloop & H).
+    rewrite Hloop in Hrun. destruct o'; inversion Hrun; subst; apply H; auto.
 Qed.
 
 (** The fixed directory: the same files without a failing statement. *)
@@ -682,8 +865,19 @@ Proof. unfold fixed, all. rewrite map_map. reflexivity. Qed.
 Lemma fixed_clean : clean fixed.
 Proof. intros f Hin. apply in_map_iff in Hin as (x & <- & _). reflexivity. Qed.
 
-Lemma fixed_no_directive : no_directive fixed.
-Proof. intros f Hin. apply in_map_iff in Hin as (x & <- & Hx). simpl. apply Hnodir. exact Hx. Qed.
+Lemma fixed_valid g : valid g dir -> valid g fixed.
+Proof. intros H f Hin. apply in_map_iff in Hin as (x & <- & Hx). apply (H x Hx). Qed.
+
+(** The one final state of a completed migration. *)
+Definition final_db : db := mkDb (map snd (plan all)) (map done_rev all).
+
+Lemma St_final c a has e : St c 0 (length all) a has e -> LK (d_tbl c) (length all) -> c = final_db.
+Proof.
+  intros HS0 HL. pose proof HS0 as [HI _].
+  pose proof (completed0 c (St_completed c 0 a has e HS0)) as Hj.
+  pose proof (LK_full_table (d_tbl c) a has HI HL) as Ht.
+  destruct c as [j t]. simpl in *. subst. reflexivity.
+Qed.
 
 End Crash.
 
@@ -693,80 +887,59 @@ Variable hash : Type.
 Variable hash_eqb : hash -> hash -> bool.
 Variable HS : bytes -> hash.
 Hypothesis hash_eqb_spec : forall a b, hash_eqb a b = true <-> a = b.
-Variable dir : list tfile.
-Hypothesis Hsorted : sorted_files (map tf_file dir).
-Hypothesis Hnock : forall f, In f (map tf_file dir) -> f_ckpt f = false.
-Hypothesis Hnodir : no_directive dir.
+Variable dskip dir : list tfile.
+Hypothesis Hfull : sorted_files (map tf_file dskip ++ map tf_file dir).
+Hypothesis Hfresh : from_last_ckpt (map tf_file dskip ++ map tf_file dir) = map tf_file dir.
 
 Notation fdir := (fixed dir).
 Notation apply_run := (apply_run hash hash_eqb HS).
 
-Lemma Bd_fixed (c : db hash) k : Bd hash HS dir c k <-> Bd hash HS fdir c k.
-Proof. unfold Bd. rewrite (fixed_files dir). reflexivity. Qed.
+Lemma fixed_full : sorted_files (map tf_file dskip ++ map tf_file fdir).
+Proof. rewrite (fixed_files dir). exact Hfull. Qed.
+Lemma fixed_fresh : from_last_ckpt (map tf_file dskip ++ map tf_file fdir) = map tf_file fdir.
+Proof. rewrite (fixed_files dir). exact Hfresh. Qed.
 
-Lemma DInv_fixed (c : db hash) D : DInv hash HS dir c D <-> DInv hash HS fdir c D.
-Proof. unfold DInv. rewrite (fixed_files dir). reflexivity. Qed.
+Lemma St_fixed (c : db hash) D k a has e : St hash HS dir c D k a has e <-> St hash HS fdir c D k a has e.
+Proof. unfold St. rewrite (fixed_files dir). reflexivity. Qed.
+Lemma LK_fixed (t : list (rev hash)) k : LK hash dir t k <-> LK hash fdir t k.
+Proof. unfold LK, Lit, done_rev. rewrite (fixed_files dir). reflexivity. Qed.
+Lemma normal_fixed k a has : normal (map tf_file dir) k a has <-> normal (map tf_file fdir) k a has.
+Proof. rewrite (fixed_files dir). reflexivity. Qed.
+Lemma final_fixed : final_db hash fdir = final_db hash dir.
+Proof. unfold final_db, done_rev. rewrite (fixed_files dir). reflexivity. Qed.
 
-Lemma completed_fixed (c : db hash) : completed hash dir c <-> completed hash fdir c.
-Proof. unfold completed. rewrite (fixed_files dir). reflexivity. Qed.
-
-Lemma fixed_sorted : sorted_files (map tf_file fdir).
-Proof. rewrite (fixed_files dir). exact Hsorted. Qed.
-Lemma fixed_nock : forall f, In f (map tf_file fdir) -> f_ckpt f = false.
-Proof. rewrite (fixed_files dir). exact Hnock. Qed.
-
-(** From any state a failed command can leave, the fixed directory completes. *)
-Lemma fixed_completes global (c : db hash) :
-  (match global with TxNone => DInv hash HS dir c 0 | _ => exists j, Bd hash HS dir c j end) ->
-  exists o2 c2 tr2, apply_run global 0 fdir c = (o2, c2, tr2) /\
-                    (o2 = ADone \/ o2 = APend PNoPending) /\ completed hash dir c2.
+(** From any resume state without repeats and with literal rows, applying the
+    fixed directory ends in THE final state. *)
+Lemma fixed_completes g (c : db hash) k a has e :
+  valid g dir -> St hash HS dir c 0 k a has e -> normal (map tf_file dir) k a has -> LK hash dir (d_tbl c) k ->
+  exists o2 c2 tr2, apply_run g 0 (dskip ++ fdir) c = (o2, c2, tr2) /\
+                    (o2 = ADone \/ o2 = APend PNoPending) /\ c2 = final_db hash dir.
 Proof.
-  intros H. destruct global.
-  - apply DInv_fixed in H.
-    destruct (run_none_clean hash hash_eqb HS hash_eqb_spec fdir fixed_sorted fixed_nock (fixed_no_directive dir Hnodir)
-                c 0 0 (fixed_clean dir) H) as (o2 & c2 & tr2 & E & Ho & _ & Hfin & _).
-    exists o2, c2, tr2. split; [exact E|]. split; [exact Ho|].
-    destruct (Hfin eq_refl) as (J & Hj & (HI & d & Hst & Hd)).
-    assert (d = 0) as -> by lia. apply stutter_zero in Hst. subst J.
-    apply completed_fixed. split; [exact Hj|].
-    intros f Hin. apply In_nth_error in Hin as [i Hi].
-    assert (i < length (map tf_file fdir)) as Hlt by (apply nth_error_Some; congruence).
-    destruct HI as (_ & _ & Hrows & _). destruct (Hrows i f Hlt Hi) as (r & Hg & (_ & Hap & _) & Ht).
-    exists r. auto.
-  - destruct H as [j HB]. apply Bd_fixed in HB.
-    destruct (run_file_clean hash hash_eqb HS hash_eqb_spec fdir fixed_sorted fixed_nock (fixed_no_directive dir Hnodir)
-                c j 0 (fixed_clean dir) HB) as (o2 & c2 & tr2 & E & Ho & _ & Hfin & _).
-    exists o2, c2, tr2. split; [exact E|]. split; [exact Ho|].
-    apply completed_fixed. apply (Bd_final hash HS fdir). apply Hfin. reflexivity.
-  - destruct H as [j HB]. apply Bd_fixed in HB.
-    destruct (run_all_clean hash hash_eqb HS hash_eqb_spec fdir fixed_sorted fixed_nock (fixed_no_directive dir Hnodir)
-                c j 0 (fixed_clean dir) HB) as (o2 & c2 & tr2 & E & Ho & _ & Hfin).
-    exists o2, c2, tr2. split; [exact E|]. split; [exact Ho|].
-    apply completed_fixed. apply (Bd_final hash HS fdir). apply Hfin. reflexivity.
+  intros Hval HS0 Hnorm HL.
+  destruct (run_clean hash hash_eqb HS hash_eqb_spec dskip fdir fixed_full fixed_fresh g 0 c 0 k a has e
+              (fixed_clean dir) (fixed_valid dir g Hval) (proj1 (St_fixed c 0 k a has e) HS0)
+              (proj1 (normal_fixed k a has) Hnorm))
+    as (o2 & c2 & tr2 & k2 & a2 & has2 & e2 & E2 & Ho2 & HS2 & _ & Hk2 & HL2 & _).
+  exists o2, c2, tr2. split; [exact E2|]. split; [exact Ho2|].
+  rewrite (Hk2 eq_refl) in HS2, HL2. rewrite <- final_fixed.
+  apply (St_final hash HS dskip fdir fixed_full c2 a2 has2 e2 HS2). apply HL2. apply LK_fixed. exact HL.
 Qed.
 
-Lemma fix_rerun_lemma global (c0 : db hash) k0 n o c1 tr :
-  Bd hash HS dir c0 k0 ->
-  apply_run global n dir c0 = (o, c1, tr) -> o = AFail OStmtErr ->
+Lemma fix_rerun_lemma g (c0 : db hash) k0 n o c1 tr :
+  valid g dir -> Bd hash HS dir c0 k0 -> LK hash dir (d_tbl c0) k0 ->
+  apply_run g n (dskip ++ dir) c0 = (o, c1, tr) -> o = AFail OStmtErr ->
   exists o2 c2 tr2 o3 c3 tr3,
-    apply_run global 0 fdir c1 = (o2, c2, tr2) /\ (o2 = ADone \/ o2 = APend PNoPending) /\
-    apply_run global 0 fdir c0 = (o3, c3, tr3) /\ (o3 = ADone \/ o3 = APend PNoPending) /\
-    completed hash dir c2 /\ completed hash dir c3 /\ d_journal c2 = d_journal c3.
+    apply_run g 0 (dskip ++ fdir) c1 = (o2, c2, tr2) /\ (o2 = ADone \/ o2 = APend PNoPending) /\
+    apply_run g 0 (dskip ++ fdir) c0 = (o3, c3, tr3) /\ (o3 = ADone \/ o3 = APend PNoPending) /\
+    c2 = c3 /\ c2 = final_db hash dir.
 Proof.
-  intros HB Hrun Ho.
-  assert (match global with TxNone => DInv hash HS dir c1 0 | _ => exists j, Bd hash HS dir c1 j end) as H1.
-  { destruct global.
-    - apply (run_none_any hash hash_eqb HS hash_eqb_spec dir Hsorted Hnock Hnodir c0 k0 n o c1 tr HB Hrun). right. exact Ho.
-    - destruct (run_file_any hash hash_eqb HS hash_eqb_spec dir Hsorted Hnock Hnodir c0 k0 n HB) as (o' & c1' & tr' & E & Hj).
-      rewrite E in Hrun. inversion Hrun; subst. exact Hj.
-    - destruct (apply_run_all_atomic hash hash_eqb HS n dir c0 o c1 tr Hrun) as [Hc _].
-      rewrite Hc by (rewrite Ho; discriminate). eauto. }
-  assert (match global with TxNone => DInv hash HS dir c0 0 | _ => exists j, Bd hash HS dir c0 j end) as H0.
-  { destruct global; eauto. eapply Bd_DInv; eauto. }
-  destruct (fixed_completes global c1 H1) as (o2 & c2 & tr2 & E2 & Ho2 & Hc2).
-  destruct (fixed_completes global c0 H0) as (o3 & c3 & tr3 & E3 & Ho3 & Hc3).
-  exists o2, c2, tr2, o3, c3, tr3. repeat (split; [assumption|]).
-  destruct Hc2 as [-> _]. destruct Hc3 as [-> _]. reflexivity.
+  intros Hval HB HL Hrun Ho.
+  assert (normal (map tf_file dir) k0 0 false) as Hn0 by (intros H; discriminate).
+  destruct (run_any hash hash_eqb HS hash_eqb_spec dskip dir Hfull Hfresh g n c0 0 k0 0 false false o c1 tr
+              Hval HB Hn0 HL Hrun Ho) as (k & a & has & e & HS1 & Hn1 & HL1).
+  destruct (fixed_completes g c1 k a has e Hval HS1 Hn1 HL1) as (o2 & c2 & tr2 & E2 & Ho2 & Hc2).
+  destruct (fixed_completes g c0 k0 0 false false Hval HB Hn0 HL) as (o3 & c3 & tr3 & E3 & Ho3 & Hc3).
+  exists o2, c2, tr2, o3, c3, tr3. repeat (split; [assumption|]). split; congruence.
 Qed.
 
 End Fix.
